@@ -1,6 +1,2945 @@
-//! Property C09: correspondence and oracle (stub: nothing built yet).
-use crate::report::Report;
+//! Property C09: "Renaming variables never changes which binding a name refers to".
+//!
+//! Three artefacts are compared on every case (program text + rule configuration):
+//!  * the REAL rule (`darklua_core::rules::RenameVariables`) applied to the parsed block;
+//!  * the Lean MODEL (`c09.rename`, `c09.globals`, `c09.resolve`, `c09.hself`) fed with the event
+//!    stream a recording `NodeProcessor + Scope` extracts from the public `ScopeVisitor`
+//!    before / after the real rule ran (correspondence, names included);
+//!  * an ORACLE that uses neither the model nor `ScopeVisitor`: an independent resolver over the
+//!    public AST following the Lua 5.1 manual §2.6 (and the Luau parser for annotations) that
+//!    computes the binding graph of input and output.
+#![allow(clippy::all)]
+use crate::model::Model;
+use crate::report::{self, hash_of, Report, Violation};
+use crate::rng::Rng;
+use darklua_core::generator::{DenseLuaGenerator, LuaGenerator};
+use darklua_core::nodes::*;
+use darklua_core::process::processors::CollectGlobalsProcessor;
+use darklua_core::process::{NodeProcessor, NodeVisitor, Scope, ScopeVisitor};
+use darklua_core::rules::{ContextBuilder, RenameVariables, Rule};
+use darklua_core::{Parser, Resources};
+use serde_json::{json, Value};
+use std::collections::{BTreeMap, BTreeSet, HashMap, HashSet};
+use std::panic::{catch_unwind, AssertUnwindSafe};
+use std::time::Instant;
 
-pub fn run(report: &mut Report, _replay: Option<&str>) {
-    report.notes.push("C09: no harness yet".to_owned());
+/// Lua 5.1 reserved words (reference manual §2.1) — an independent copy, not darklua's table.
+const LUA_KEYWORDS: [&str; 21] = [
+    "and", "break", "do", "else", "elseif", "end", "false", "for", "function", "if", "in", "local",
+    "nil", "not", "or", "repeat", "return", "then", "true", "until", "while",
+];
+
+const THREADS: usize = 16;
+type Item = (Src, std::sync::Arc<Vec<Cfg>>);
+static TEXT_PATH_OK: std::sync::OnceLock<bool> = std::sync::OnceLock::new();
+
+// ------------------------------------------------------------------------------------------
+// configuration of the rule
+// ------------------------------------------------------------------------------------------
+
+#[derive(Clone, Debug, PartialEq, Eq, Hash)]
+struct Cfg {
+    incl: bool,
+    detect: bool,
+    globals: Vec<String>,
+    /// build the rule from json5 configuration text (the deserialiser starts from
+    /// `RenameVariables::default()`, so the configured list is APPENDED to `$default`)
+    via_text: bool,
+}
+
+/// copy of src/rules/rename_variables/globals.rs DEFAULT; verified against the real rule at run
+/// time by `default_globals_copy_is_current` (the config-text path is skipped if it is stale)
+const DEFAULT_GLOBALS: [&str; 40] = [
+    "arg", "assert", "collectgarbage", "coroutine", "debug", "dofile", "error", "gcinfo", "getfenv", "getmetatable",
+    "io", "ipairs", "load", "loadfile", "loadstring", "math", "module", "newproxy", "next", "os", "package", "pairs",
+    "pcall", "print", "rawequal", "rawget", "rawset", "require", "select", "setfenv", "setmetatable", "string", "table",
+    "tonumber", "tostring", "type", "unpack", "xpcall", "_G", "_VERSION",
+];
+
+/// `RenameVariables::new(copy)` serialises without a `globals` property exactly when the copy
+/// equals the crate's DEFAULT list as a set (normalize_globals folds it into `$default`).
+fn default_globals_copy_is_current() -> bool {
+    let with_copy: Box<dyn Rule> = Box::new(RenameVariables::new(DEFAULT_GLOBALS.iter().map(|s| (*s).to_owned())));
+    let one_less: Box<dyn Rule> = Box::new(RenameVariables::new(DEFAULT_GLOBALS[1..].iter().map(|s| (*s).to_owned())));
+    let a = serde_json::to_value(&with_copy).unwrap_or(Value::Null);
+    let b = serde_json::to_value(&one_less).unwrap_or(Value::Null);
+    let folded = |v: &Value| v.is_string() || (v.is_object() && v.get("globals").is_none());
+    folded(&a) && !folded(&b)
+}
+
+impl Cfg {
+    fn new(incl: bool, detect: bool, globals: &[&str]) -> Cfg {
+        Cfg { incl, detect, globals: globals.iter().map(|s| (*s).to_owned()).collect(), via_text: false }
+    }
+    fn to_json(&self) -> Value {
+        json!({"incl": self.incl, "detect": self.detect, "globals": self.globals, "via_config_text": self.via_text})
+    }
+    /// the list RenameProcessor really receives from the rule
+    fn effective_globals(&self) -> Vec<String> {
+        let mut list: Vec<String> = Vec::new();
+        if self.via_text {
+            list.extend(DEFAULT_GLOBALS.iter().map(|s| (*s).to_owned()));
+        }
+        list.extend(self.globals.iter().cloned());
+        list
+    }
+    fn from_json(v: &Value) -> Cfg {
+        Cfg {
+            incl: v["incl"].as_bool().unwrap_or(false),
+            detect: v["detect"].as_bool().unwrap_or(true),
+            globals: v["globals"]
+                .as_array()
+                .map(|a| a.iter().filter_map(|x| x.as_str().map(str::to_owned)).collect())
+                .unwrap_or_default(),
+            via_text: v["via_config_text"].as_bool().unwrap_or(false),
+        }
+    }
+    fn wire(&self) -> String {
+        let globals = self.effective_globals();
+        format!(
+            "{} {} {}",
+            self.incl as u8,
+            self.detect as u8,
+            if globals.is_empty() { "-".to_owned() } else { globals.join(",") }
+        )
+    }
+    fn label(&self) -> String {
+        format!("incl={} detect={} globals={}", self.incl as u8, self.detect as u8, self.globals.len())
+    }
+    /// the real rule, built either through the Rust API or through the json5 configuration text
+    fn rule(&self) -> Result<Box<dyn Rule>, String> {
+        if self.via_text {
+            let list: Vec<String> = self.globals.iter().map(|g| format!("'{}'", g)).collect();
+            let text = format!(
+                "{{ rule: 'rename_variables', globals: [{}], include_functions: {}, detect_globals: {} }}",
+                list.join(", "),
+                self.incl,
+                self.detect
+            );
+            json5::from_str::<Box<dyn Rule>>(&text).map_err(|e| format!("config rejected: {}", e))
+        } else {
+            let mut rule = RenameVariables::new(self.globals.iter().cloned());
+            if self.incl {
+                rule = rule.with_function_names();
+            }
+            if !self.detect {
+                rule = rule.disable_global_detection();
+            }
+            Ok(Box::new(rule))
+        }
+    }
+}
+
+fn apply_rule(block: &mut Block, cfg: &Cfg) -> Result<(), String> {
+    let rule = cfg.rule()?;
+    let resources = Resources::from_memory();
+    let context = ContextBuilder::new("verif.lua", &resources, "").build();
+    match catch_unwind(AssertUnwindSafe(|| rule.process(block, &context))) {
+        Ok(Ok(())) => Ok(()),
+        Ok(Err(e)) => Err(format!("rule returned an error: {}", e)),
+        Err(_) => Err("rule panicked".to_owned()),
+    }
+}
+
+// ------------------------------------------------------------------------------------------
+// event streams: what RenameProcessor reacts to, recorded through the public ScopeVisitor
+// ------------------------------------------------------------------------------------------
+
+#[derive(Default)]
+struct Recorder {
+    out: String,
+    n: usize,
+}
+
+impl Recorder {
+    fn ev(&mut self, tag: &str, name: Option<&str>) {
+        if self.n > 0 {
+            self.out.push(';');
+        }
+        self.n += 1;
+        self.out.push_str(tag);
+        if let Some(name) = name {
+            self.out.push(':');
+            self.out.push_str(name);
+        }
+    }
+}
+
+impl Scope for Recorder {
+    fn push(&mut self) {
+        self.ev("+", None)
+    }
+    fn pop(&mut self) {
+        self.ev("-", None)
+    }
+    fn insert(&mut self, identifier: &mut String) {
+        self.ev("i", Some(identifier))
+    }
+    fn insert_self(&mut self) {
+        self.ev("S", None)
+    }
+    fn insert_local(&mut self, identifier: &mut String, _value: Option<&mut Expression>) {
+        self.ev("l", Some(identifier))
+    }
+    fn insert_local_function(&mut self, function: &mut FunctionAssignment) {
+        let name = function.get_name().to_owned();
+        self.ev("f", Some(&name))
+    }
+}
+
+impl NodeProcessor for Recorder {
+    fn process_variable_expression(&mut self, variable: &mut Identifier) {
+        let name = variable.get_name().clone();
+        self.ev("u", Some(&name))
+    }
+    fn process_type_field(&mut self, type_field: &mut TypeField) {
+        let name = type_field.get_namespace().get_name().clone();
+        self.ev("t", Some(&name))
+    }
+}
+
+/// the event stream of a block in wire encoding (`.` when empty)
+fn record_events(block: &mut Block) -> Result<String, String> {
+    let mut recorder = Recorder::default();
+    catch_unwind(AssertUnwindSafe(|| ScopeVisitor::visit_block(block, &mut recorder)))
+        .map_err(|_| "ScopeVisitor panicked under the recorder".to_owned())?;
+    Ok(if recorder.n == 0 { ".".to_owned() } else { recorder.out })
+}
+
+fn wire_names_ok(events: &str) -> bool {
+    events.bytes().all(|b| b.is_ascii_alphanumeric() || matches!(b, b'_' | b';' | b':' | b'+' | b'-' | b'.'))
+}
+
+fn real_globals(block: &mut Block) -> Result<String, String> {
+    let mut processor = CollectGlobalsProcessor::default();
+    catch_unwind(AssertUnwindSafe(|| ScopeVisitor::visit_block(block, &mut processor)))
+        .map_err(|_| "CollectGlobalsProcessor panicked".to_owned())?;
+    let set: BTreeSet<String> = processor.into_globals().collect();
+    Ok(if set.is_empty() { "-".to_owned() } else { set.into_iter().collect::<Vec<_>>().join(",") })
+}
+
+// ------------------------------------------------------------------------------------------
+// ORACLE: an independent resolver (own scoping, own traversal; no ScopeVisitor, no model)
+// ------------------------------------------------------------------------------------------
+
+#[derive(Clone, Copy, PartialEq, Eq, Debug, Hash)]
+enum DK {
+    Local,
+    LocalFn,
+    Param,
+    ForVar,
+    ImplicitSelf,
+    TypeFnParam,
+}
+
+/// `Luau`: annotations of binders are resolved in the scope enclosing the binder (what the Luau
+/// parser does: it parses the whole binding list / signature before pushing the locals).
+/// `Visitor`: the three places where darklua's ScopeVisitor is known to differ (generic-for
+/// annotations after the loop variables, local-function name before its signature types,
+/// type-function parameters not declared). Only used to CLASSIFY programs (hypothesis Hannot).
+#[derive(Clone, Copy, PartialEq, Eq, Debug)]
+enum Mode {
+    Luau,
+    Visitor,
+}
+
+const GLOBAL: u32 = u32::MAX;
+const ERASED: &str = "_";
+
+#[derive(Clone, Copy)]
+struct Decl {
+    name: u32,
+    kind: DK,
+    fdepth: u32,
+    /// the declaration this one shadows (restored when the scope closes), or GLOBAL
+    shadowed: u32,
+}
+
+#[derive(Clone, Copy)]
+struct Occ {
+    name: u32,
+    target: u32,
+}
+
+#[derive(Default, Clone, Debug)]
+struct Shape {
+    stmt_kinds: BTreeSet<&'static str>,
+    scope_kinds: BTreeSet<&'static str>,
+    has_types: bool,
+    has_type_fn_params: bool,
+}
+
+struct Resolver {
+    mode: Mode,
+    erase: bool,
+    interner: HashMap<std::sync::Arc<str>, u32>,
+    names: Vec<std::sync::Arc<str>>,
+    /// per name: the innermost live declaration, or GLOBAL
+    head: Vec<u32>,
+    ever: Vec<bool>,
+    scopes: Vec<Vec<u32>>,
+    decls: Vec<Decl>,
+    occs: Vec<Occ>,
+    fdepth: u32,
+    live: usize,
+    max_live: usize,
+    shadows: u64,
+    captures: u64,
+    reuses: u64,
+    shape: Shape,
+}
+
+impl Resolver {
+    fn new(mode: Mode, erase: bool) -> Resolver {
+        Resolver {
+            mode,
+            erase,
+            interner: HashMap::new(),
+            names: Vec::new(),
+            head: Vec::new(),
+            ever: Vec::new(),
+            scopes: Vec::new(),
+            decls: Vec::new(),
+            occs: Vec::new(),
+            fdepth: 0,
+            live: 0,
+            max_live: 0,
+            shadows: 0,
+            captures: 0,
+            reuses: 0,
+            shape: Shape::default(),
+        }
+    }
+
+    fn run(mode: Mode, erase: bool, block: &mut Block) -> Resolver {
+        let mut r = Resolver::new(mode, erase);
+        r.block(block);
+        r
+    }
+
+    fn intern(&mut self, name: &str) -> u32 {
+        if let Some(id) = self.interner.get(name) {
+            return *id;
+        }
+        let id = self.names.len() as u32;
+        let shared: std::sync::Arc<str> = std::sync::Arc::from(name);
+        self.interner.insert(shared.clone(), id);
+        self.names.push(shared);
+        self.head.push(GLOBAL);
+        self.ever.push(false);
+        id
+    }
+
+    fn name_of(&self, id: u32) -> &str {
+        &self.names[id as usize]
+    }
+    fn decl_name(&self, i: usize) -> &str {
+        self.name_of(self.decls[i].name)
+    }
+    fn occ_name(&self, i: usize) -> &str {
+        self.name_of(self.occs[i].name)
+    }
+
+    fn push(&mut self) {
+        self.scopes.push(Vec::new());
+    }
+
+    fn pop(&mut self) {
+        if let Some(names) = self.scopes.pop() {
+            self.live -= names.len();
+            for id in names.into_iter().rev() {
+                let innermost = self.head[id as usize];
+                self.head[id as usize] = self.decls[innermost as usize].shadowed;
+            }
+        }
+    }
+
+    fn bind(&mut self, id: u32, kind: DK, bound: bool) {
+        let ordinal = self.decls.len() as u32;
+        let shadowed = if bound { self.head[id as usize] } else { GLOBAL };
+        self.decls.push(Decl { name: id, kind, fdepth: self.fdepth, shadowed });
+        if !bound {
+            return;
+        }
+        if shadowed != GLOBAL {
+            self.shadows += 1;
+        } else if self.ever[id as usize] {
+            self.reuses += 1;
+        }
+        self.ever[id as usize] = true;
+        self.head[id as usize] = ordinal;
+        if self.scopes.is_empty() {
+            self.scopes.push(Vec::new());
+        }
+        self.scopes.last_mut().unwrap().push(id);
+        self.live += 1;
+        if self.live > self.max_live {
+            self.max_live = self.live;
+        }
+    }
+
+    fn declare(&mut self, identifier: &mut Identifier, kind: DK) {
+        let id = self.intern(identifier.get_name());
+        self.bind(id, kind, true);
+        if self.erase {
+            identifier.set_name(ERASED);
+        }
+    }
+
+    fn declare_self(&mut self) {
+        let id = self.intern("self");
+        self.bind(id, DK::ImplicitSelf, true);
+    }
+
+    fn occurrence(&mut self, identifier: &mut Identifier) {
+        let id = self.intern(identifier.get_name());
+        let target = self.head[id as usize];
+        if target != GLOBAL && self.decls[target as usize].fdepth < self.fdepth {
+            self.captures += 1;
+        }
+        self.occs.push(Occ { name: id, target });
+        if self.erase {
+            identifier.set_name(ERASED);
+        }
+    }
+
+    // ---- blocks and statements
+
+    fn block(&mut self, block: &mut Block) {
+        self.push();
+        self.block_no_scope(block);
+        self.pop();
+    }
+
+    fn block_no_scope(&mut self, block: &mut Block) {
+        for statement in block.iter_mut_statements() {
+            self.statement(statement);
+        }
+        if let Some(last) = block.mutate_last_statement() {
+            match last {
+                LastStatement::Return(ret) => {
+                    self.shape.stmt_kinds.insert("return");
+                    for e in ret.iter_mut_expressions() {
+                        self.expr(e);
+                    }
+                }
+                LastStatement::Break(_) => {
+                    self.shape.stmt_kinds.insert("break");
+                }
+                LastStatement::Continue(_) => {
+                    self.shape.stmt_kinds.insert("continue");
+                }
+            }
+        }
+    }
+
+    fn statement(&mut self, statement: &mut Statement) {
+        match statement {
+            Statement::Assign(assign) => {
+                self.shape.stmt_kinds.insert("assign");
+                for variable in assign.iter_mut_variables() {
+                    self.variable(variable);
+                }
+                for value in assign.iter_mut_values() {
+                    self.expr(value);
+                }
+            }
+            Statement::Do(s) => {
+                self.shape.stmt_kinds.insert("do");
+                self.shape.scope_kinds.insert("do");
+                self.block(s.mutate_block());
+            }
+            Statement::Call(call) => {
+                self.shape.stmt_kinds.insert("call");
+                self.call(call);
+            }
+            Statement::CompoundAssign(s) => {
+                self.shape.stmt_kinds.insert("compound_assign");
+                self.variable(s.mutate_variable());
+                self.expr(s.mutate_value());
+            }
+            Statement::Function(f) => {
+                self.shape.stmt_kinds.insert(if f.get_name().has_method() {
+                    "function_method"
+                } else if f.get_name().get_field_names().is_empty() {
+                    "function_global"
+                } else {
+                    "function_field"
+                });
+                // `function a.b.c()` / `function a.b:c()` : the root `a` is an ordinary variable use
+                self.occurrence(f.mutate_function_name().mutate_identifier());
+                for p in f.iter_mut_parameters() {
+                    if let Some(t) = p.mutate_type() {
+                        self.ty(t);
+                    }
+                }
+                if let Some(v) = f.mutate_variadic_type() {
+                    self.fn_variadic_ty(v);
+                }
+                if let Some(r) = f.mutate_return_type() {
+                    self.ret_ty(r);
+                }
+                self.push();
+                self.fdepth += 1;
+                if f.get_name().has_method() {
+                    self.shape.scope_kinds.insert("method(self)");
+                    self.declare_self();
+                } else {
+                    self.shape.scope_kinds.insert("function");
+                }
+                if f.is_variadic() {
+                    self.shape.scope_kinds.insert("vararg-function");
+                }
+                for p in f.mutate_parameters().iter_mut() {
+                    self.declare(p, DK::Param);
+                }
+                self.block(f.mutate_block());
+                self.fdepth -= 1;
+                self.pop();
+            }
+            Statement::GenericFor(s) => {
+                self.shape.stmt_kinds.insert("generic_for");
+                self.shape.scope_kinds.insert("generic_for");
+                // explist evaluated once, in the enclosing scope (manual §2.4.5)
+                for e in s.iter_mut_expressions() {
+                    self.expr(e);
+                }
+                if self.mode == Mode::Luau {
+                    for id in s.iter_mut_identifiers() {
+                        if let Some(t) = id.mutate_type() {
+                            self.ty(t);
+                        }
+                    }
+                }
+                self.push();
+                for id in s.iter_mut_identifiers() {
+                    self.declare(id, DK::ForVar);
+                }
+                if self.mode == Mode::Visitor {
+                    for id in s.iter_mut_identifiers() {
+                        if let Some(t) = id.mutate_type() {
+                            self.ty(t);
+                        }
+                    }
+                }
+                self.block(s.mutate_block());
+                self.pop();
+            }
+            Statement::If(s) => {
+                self.shape.stmt_kinds.insert("if");
+                self.shape.scope_kinds.insert("if-branch");
+                if s.branch_count() > 1 {
+                    self.shape.scope_kinds.insert("elseif-branch");
+                }
+                for branch in s.mutate_branches().iter_mut() {
+                    self.expr(branch.mutate_condition());
+                    self.block(branch.mutate_block());
+                }
+                if let Some(block) = s.mutate_else_block() {
+                    self.shape.scope_kinds.insert("else-branch");
+                    self.block(block);
+                }
+            }
+            Statement::LocalAssign(s) => {
+                self.shape.stmt_kinds.insert(if s.variables_len() > 1 { "local_multi" } else { "local" });
+                // manual §2.4.7 / §2.6: the scope of the names begins AFTER the statement
+                for value in s.iter_mut_values() {
+                    self.expr(value);
+                }
+                for v in s.iter_mut_variables() {
+                    if let Some(t) = v.mutate_type() {
+                        self.ty(t);
+                    }
+                }
+                for v in s.iter_mut_variables() {
+                    self.declare(v, DK::Local);
+                }
+            }
+            Statement::LocalFunction(f) => {
+                self.shape.stmt_kinds.insert("local_function");
+                self.shape.scope_kinds.insert("local-function");
+                if self.mode == Mode::Visitor {
+                    self.declare(f.mutate_identifier(), DK::LocalFn);
+                }
+                for p in f.iter_mut_parameters() {
+                    if let Some(t) = p.mutate_type() {
+                        self.ty(t);
+                    }
+                }
+                if let Some(v) = f.mutate_variadic_type() {
+                    self.fn_variadic_ty(v);
+                }
+                if let Some(r) = f.mutate_return_type() {
+                    self.ret_ty(r);
+                }
+                if self.mode == Mode::Luau {
+                    // `local function f` = `local f; f = function … end`: f visible in its body
+                    self.declare(f.mutate_identifier(), DK::LocalFn);
+                }
+                self.push();
+                self.fdepth += 1;
+                if f.is_variadic() {
+                    self.shape.scope_kinds.insert("vararg-function");
+                }
+                for p in f.mutate_parameters().iter_mut() {
+                    self.declare(p, DK::Param);
+                }
+                self.block(f.mutate_block());
+                self.fdepth -= 1;
+                self.pop();
+            }
+            Statement::NumericFor(s) => {
+                self.shape.stmt_kinds.insert("numeric_for");
+                self.shape.scope_kinds.insert("numeric_for");
+                self.expr(s.mutate_start());
+                self.expr(s.mutate_end());
+                if let Some(step) = s.mutate_step() {
+                    self.expr(step);
+                }
+                if let Some(t) = s.mutate_identifier().mutate_type() {
+                    self.ty(t);
+                }
+                self.push();
+                self.declare(s.mutate_identifier(), DK::ForVar);
+                self.block(s.mutate_block());
+                self.pop();
+            }
+            Statement::Repeat(s) => {
+                self.shape.stmt_kinds.insert("repeat");
+                self.shape.scope_kinds.insert("repeat(+until)");
+                // manual §2.4.4: the condition can refer to locals declared inside the loop block
+                self.push();
+                self.block_no_scope(s.mutate_block());
+                self.expr(s.mutate_condition());
+                self.pop();
+            }
+            Statement::While(s) => {
+                self.shape.stmt_kinds.insert("while");
+                self.shape.scope_kinds.insert("while");
+                self.expr(s.mutate_condition());
+                self.block(s.mutate_block());
+            }
+            Statement::TypeDeclaration(s) => {
+                self.shape.stmt_kinds.insert("type_declaration");
+                self.shape.has_types = true;
+                if let Some(generics) = s.mutate_generic_parameters() {
+                    for parameter in generics.iter_mut() {
+                        match parameter {
+                            GenericParameterMutRef::TypeVariable(_) => {}
+                            GenericParameterMutRef::TypeVariableWithDefault(v) => {
+                                self.ty(v.mutate_default_type());
+                            }
+                            GenericParameterMutRef::GenericTypePack(_) => {}
+                            GenericParameterMutRef::GenericTypePackWithDefault(p) => {
+                                match p.mutate_default_type() {
+                                    GenericTypePackDefault::TypePack(pack) => self.type_pack(pack),
+                                    GenericTypePackDefault::VariadicTypePack(v) => self.ty(v.mutate_type()),
+                                    GenericTypePackDefault::GenericTypePack(_) => {}
+                                }
+                            }
+                        }
+                    }
+                }
+                self.ty(s.mutate_type());
+            }
+            Statement::TypeFunction(f) => {
+                self.shape.stmt_kinds.insert("type_function");
+                self.shape.has_types = true;
+                self.push();
+                self.fdepth += 1;
+                let luau = self.mode == Mode::Luau;
+                for p in f.mutate_parameters().iter_mut() {
+                    self.shape.has_type_fn_params = true;
+                    if luau {
+                        self.declare(p, DK::TypeFnParam);
+                    } else {
+                        // keep the declaration numbering identical in both modes
+                        let id = self.intern(p.get_name());
+                        self.bind(id, DK::TypeFnParam, false);
+                    }
+                }
+                self.block(f.mutate_block());
+                self.fdepth -= 1;
+                self.pop();
+                for p in f.iter_mut_parameters() {
+                    if let Some(t) = p.mutate_type() {
+                        self.ty(t);
+                    }
+                }
+                if let Some(v) = f.mutate_variadic_type() {
+                    self.fn_variadic_ty(v);
+                }
+                if let Some(r) = f.mutate_return_type() {
+                    self.ret_ty(r);
+                }
+            }
+        }
+    }
+
+    fn variable(&mut self, variable: &mut Variable) {
+        match variable {
+            Variable::Identifier(identifier) => self.occurrence(identifier),
+            Variable::Field(field) => self.prefix(field.mutate_prefix()),
+            Variable::Index(index) => {
+                self.prefix(index.mutate_prefix());
+                self.expr(index.mutate_index());
+            }
+        }
+    }
+
+    // ---- expressions
+
+    fn expr(&mut self, expression: &mut Expression) {
+        match expression {
+            Expression::Binary(b) => {
+                self.expr(b.mutate_left());
+                self.expr(b.mutate_right());
+            }
+            Expression::Call(call) => self.call(call),
+            Expression::Field(field) => self.prefix(field.mutate_prefix()),
+            Expression::Function(f) => {
+                for p in f.iter_mut_parameters() {
+                    if let Some(t) = p.mutate_type() {
+                        self.ty(t);
+                    }
+                }
+                if let Some(v) = f.mutate_variadic_type() {
+                    self.fn_variadic_ty(v);
+                }
+                if let Some(r) = f.mutate_return_type() {
+                    self.ret_ty(r);
+                }
+                self.shape.scope_kinds.insert("closure");
+                if f.is_variadic() {
+                    self.shape.scope_kinds.insert("vararg-function");
+                }
+                self.push();
+                self.fdepth += 1;
+                for p in f.mutate_parameters().iter_mut() {
+                    self.declare(p, DK::Param);
+                }
+                self.block(f.mutate_block());
+                self.fdepth -= 1;
+                self.pop();
+            }
+            Expression::Identifier(identifier) => self.occurrence(identifier),
+            Expression::If(e) => {
+                self.expr(e.mutate_condition());
+                self.expr(e.mutate_result());
+                for branch in e.iter_mut_branches() {
+                    self.expr(branch.mutate_condition());
+                    self.expr(branch.mutate_result());
+                }
+                self.expr(e.mutate_else_result());
+            }
+            Expression::Index(index) => {
+                self.prefix(index.mutate_prefix());
+                self.expr(index.mutate_index());
+            }
+            Expression::Parenthese(p) => self.expr(p.mutate_inner_expression()),
+            Expression::InterpolatedString(s) => {
+                for segment in s.iter_mut_segments() {
+                    if let InterpolationSegment::Value(value) = segment {
+                        self.expr(value.mutate_expression());
+                    }
+                }
+            }
+            Expression::Table(table) => self.table(table),
+            Expression::Unary(u) => self.expr(u.mutate_expression()),
+            Expression::TypeCast(cast) => {
+                self.shape.has_types = true;
+                self.expr(cast.mutate_expression());
+                self.ty(cast.mutate_type());
+            }
+            Expression::TypeInstantiation(inst) => {
+                self.shape.has_types = true;
+                self.prefix(inst.mutate_prefix());
+                for t in inst.iter_mut_types() {
+                    self.ty(t);
+                }
+            }
+            Expression::False(_)
+            | Expression::True(_)
+            | Expression::Nil(_)
+            | Expression::Number(_)
+            | Expression::String(_)
+            | Expression::VariableArguments(_) => {}
+        }
+    }
+
+    fn prefix(&mut self, prefix: &mut Prefix) {
+        match prefix {
+            Prefix::Call(call) => self.call(call),
+            Prefix::Field(field) => self.prefix(field.mutate_prefix()),
+            Prefix::Identifier(identifier) => self.occurrence(identifier),
+            Prefix::Index(index) => {
+                self.prefix(index.mutate_prefix());
+                self.expr(index.mutate_index());
+            }
+            Prefix::Parenthese(p) => self.expr(p.mutate_inner_expression()),
+            Prefix::TypeInstantiation(inst) => {
+                self.shape.has_types = true;
+                self.prefix(inst.mutate_prefix());
+                for t in inst.iter_mut_types() {
+                    self.ty(t);
+                }
+            }
+        }
+    }
+
+    fn call(&mut self, call: &mut FunctionCall) {
+        // the method name of `a:m()` and field names are not variables
+        self.prefix(call.mutate_prefix());
+        match call.mutate_arguments() {
+            Arguments::Tuple(tuple) => {
+                for value in tuple.iter_mut_values() {
+                    self.expr(value);
+                }
+            }
+            Arguments::String(_) => {}
+            Arguments::Table(table) => self.table(table),
+        }
+    }
+
+    fn table(&mut self, table: &mut TableExpression) {
+        for entry in table.iter_mut_entries() {
+            match entry {
+                // `{ k = v }`: k is a string key, not a variable
+                TableEntry::Field(field) => self.expr(field.mutate_value()),
+                TableEntry::Index(index) => {
+                    self.expr(index.mutate_key());
+                    self.expr(index.mutate_value());
+                }
+                TableEntry::Value(value) => self.expr(value),
+            }
+        }
+    }
+
+    // ---- Luau types: variables occur in `typeof(e)` and as the namespace of `M.T`
+
+    fn ty(&mut self, t: &mut Type) {
+        self.shape.has_types = true;
+        match t {
+            Type::Name(name) => self.type_name(name),
+            Type::Field(field) => {
+                self.occurrence(field.mutate_namespace());
+                self.type_name(field.mutate_type_name());
+            }
+            Type::Array(array) => self.ty(array.mutate_element_type()),
+            Type::Table(table) => {
+                for entry in table.iter_mut_entries() {
+                    match entry {
+                        TableEntryType::Property(p) => self.ty(p.mutate_type()),
+                        TableEntryType::Literal(p) => self.ty(p.mutate_type()),
+                        TableEntryType::Indexer(i) => {
+                            self.ty(i.mutate_key_type());
+                            self.ty(i.mutate_value_type());
+                        }
+                    }
+                }
+            }
+            Type::TypeOf(e) => self.expr(e.mutate_expression()),
+            Type::Parenthese(p) => self.ty(p.mutate_inner_type()),
+            Type::Function(f) => {
+                for argument in f.iter_mut_arguments() {
+                    self.ty(argument.mutate_type());
+                }
+                if let Some(v) = f.mutate_variadic_argument_type() {
+                    self.variadic_arg_ty(v);
+                }
+                self.ret_ty(f.mutate_return_type());
+            }
+            Type::Optional(o) => self.ty(o.mutate_inner_type()),
+            Type::Intersection(i) => {
+                for t in i.iter_mut_types() {
+                    self.ty(t);
+                }
+            }
+            Type::Union(u) => {
+                for t in u.iter_mut_types() {
+                    self.ty(t);
+                }
+            }
+            Type::String(_) | Type::True(_) | Type::False(_) | Type::Nil(_) => {}
+        }
+    }
+
+    fn type_name(&mut self, name: &mut TypeName) {
+        if let Some(parameters) = name.mutate_type_parameters() {
+            for parameter in parameters.iter_mut() {
+                match parameter {
+                    TypeParameter::Type(t) => self.ty(t),
+                    TypeParameter::TypePack(pack) => self.type_pack(pack),
+                    TypeParameter::VariadicTypePack(v) => self.ty(v.mutate_type()),
+                    TypeParameter::GenericTypePack(_) => {}
+                }
+            }
+        }
+    }
+
+    fn type_pack(&mut self, pack: &mut TypePack) {
+        for t in pack.iter_mut() {
+            self.ty(t);
+        }
+        if let Some(v) = pack.mutate_variadic_type() {
+            self.variadic_arg_ty(v);
+        }
+    }
+
+    fn variadic_arg_ty(&mut self, v: &mut VariadicArgumentType) {
+        match v {
+            VariadicArgumentType::VariadicTypePack(pack) => self.ty(pack.mutate_type()),
+            VariadicArgumentType::GenericTypePack(_) => {}
+        }
+    }
+
+    fn fn_variadic_ty(&mut self, v: &mut FunctionVariadicType) {
+        match v {
+            FunctionVariadicType::Type(t) => self.ty(t),
+            FunctionVariadicType::GenericTypePack(_) => {}
+        }
+    }
+
+    fn ret_ty(&mut self, r: &mut FunctionReturnType) {
+        match r {
+            FunctionReturnType::Type(t) => self.ty(t),
+            FunctionReturnType::TypePack(pack) => self.type_pack(pack),
+            FunctionReturnType::VariadicTypePack(v) => self.ty(v.mutate_type()),
+            FunctionReturnType::GenericTypePack(_) => {}
+        }
+    }
+
+    // ---- views
+
+    fn targets_equal(&self, other: &Resolver) -> bool {
+        self.occs.len() == other.occs.len()
+            && self.decls.len() == other.decls.len()
+            && self.occs.iter().zip(&other.occs).all(|(a, b)| a.target == b.target)
+            && self.decls.iter().zip(&other.decls).all(|(a, b)| a.kind == b.kind)
+    }
+
+    fn globals_used(&self) -> BTreeSet<String> {
+        self.occs
+            .iter()
+            .filter(|o| o.target == GLOBAL)
+            .map(|o| self.name_of(o.name).to_owned())
+            .collect()
+    }
+
+    /// `c09.resolve` rendering: one item per occurrence, `g` or the declaration ordinal
+    fn resolve_wire(&self) -> String {
+        if self.occs.is_empty() {
+            return ".".to_owned();
+        }
+        let mut out = String::with_capacity(self.occs.len() * 3);
+        for (i, o) in self.occs.iter().enumerate() {
+            if i > 0 {
+                out.push(',');
+            }
+            if o.target == GLOBAL {
+                out.push('g');
+            } else {
+                out.push_str(&o.target.to_string());
+            }
+        }
+        out
+    }
+}
+
+fn describe_target(r: &Resolver, target: u32) -> String {
+    if target == GLOBAL {
+        "global".to_owned()
+    } else {
+        let d = &r.decls[target as usize];
+        format!("declaration #{} ({:?} `{}`)", target, d.kind, r.name_of(d.name))
+    }
+}
+
+fn generate_text(block: &Block) -> String {
+    let mut generator = DenseLuaGenerator::default();
+    generator.write_block(block);
+    generator.into_string()
+}
+
+/// What the oracle knows about the input program (computed once per program).
+struct InputFacts {
+    luau: Resolver,
+    erased: Block,
+    /// Hannot: the Luau-faithful graph equals the graph under ScopeVisitor's three deviations
+    hannot: bool,
+    globals_used: BTreeSet<String>,
+}
+
+fn input_facts(block_in: &Block) -> InputFacts {
+    let mut erased = block_in.clone();
+    let luau = Resolver::run(Mode::Luau, true, &mut erased);
+    let mut scratch = block_in.clone();
+    let visitor = Resolver::run(Mode::Visitor, false, &mut scratch);
+    let hannot = luau.targets_equal(&visitor);
+    let globals_used = luau.globals_used();
+    InputFacts { luau, erased, hannot, globals_used }
+}
+
+/// the region in which the property is claimed for a configuration
+fn claimed(facts: &InputFacts, cfg: &Cfg) -> bool {
+    let globals = cfg.effective_globals();
+    cfg.detect || facts.globals_used.iter().all(|g| globals.contains(g))
+}
+
+struct OracleOutcome {
+    failure: Option<(String, String)>, // (check, what)
+    renamed_any: bool,
+    reuses_out: u64,
+}
+
+/// The property judged on the real output. `block_out` is consumed (erased in place).
+fn oracle(facts: &InputFacts, mut block_out: Block, cfg: &Cfg, reparse: bool) -> OracleOutcome {
+    let text = if reparse { Some(generate_text(&block_out)) } else { None };
+    let rout = Resolver::run(Mode::Luau, true, &mut block_out);
+    oracle_core(&facts.luau, rout, Some((&facts.erased, &block_out)), &facts.globals_used, cfg, text)
+}
+
+/// demands (a) (b) (d) on two graphs, (c) on the erased trees when given, (e) on the text when given
+fn oracle_core(
+    rin: &Resolver,
+    rout: Resolver,
+    erased: Option<(&Block, &Block)>,
+    globals_used: &BTreeSet<String>,
+    cfg: &Cfg,
+    text: Option<String>,
+) -> OracleOutcome {
+    let mut renamed_any = false;
+    let fail = |check: &str, what: String, renamed_any: bool, reuses_out: u64| OracleOutcome {
+        failure: Some((check.to_owned(), what)),
+        renamed_any,
+        reuses_out,
+    };
+    // (a) same binding graph
+    if rin.occs.len() != rout.occs.len() || rin.decls.len() != rout.decls.len() {
+        return fail(
+            "graph-shape",
+            format!(
+                "occurrences {} -> {}, declarations {} -> {}",
+                rin.occs.len(),
+                rout.occs.len(),
+                rin.decls.len(),
+                rout.decls.len()
+            ),
+            false,
+            rout.reuses,
+        );
+    }
+    for i in 0..rin.decls.len() {
+        if rin.decls[i].kind != rout.decls[i].kind {
+            return fail("graph-shape", format!("declaration #{} changed its kind", i), false, rout.reuses);
+        }
+        if rin.decl_name(i) != rout.decl_name(i) {
+            renamed_any = true;
+        }
+    }
+    for i in 0..rin.occs.len() {
+        if rin.occs[i].target != rout.occs[i].target {
+            return fail(
+                "binding-changed",
+                format!(
+                    "occurrence #{} `{}` (now `{}`) referred to {} and now refers to {}",
+                    i,
+                    rin.occ_name(i),
+                    rout.occ_name(i),
+                    describe_target(rin, rin.occs[i].target),
+                    describe_target(&rout, rout.occs[i].target)
+                ),
+                renamed_any,
+                rout.reuses,
+            );
+        }
+    }
+    // (b) globals, implicit self and (include_functions = false) local function names keep their name
+    for i in 0..rin.occs.len() {
+        let target = rin.occs[i].target;
+        if target == GLOBAL {
+            if rin.occ_name(i) != rout.occ_name(i) {
+                return fail(
+                    "global-renamed",
+                    format!("global occurrence #{} `{}` became `{}`", i, rin.occ_name(i), rout.occ_name(i)),
+                    renamed_any,
+                    rout.reuses,
+                );
+            }
+        } else if rin.decls[target as usize].kind == DK::ImplicitSelf && rout.occ_name(i) != "self" {
+            return fail(
+                "self-renamed",
+                format!("occurrence #{} of the implicit self became `{}`", i, rout.occ_name(i)),
+                renamed_any,
+                rout.reuses,
+            );
+        }
+    }
+    if !cfg.incl {
+        for i in 0..rin.decls.len() {
+            if rin.decls[i].kind == DK::LocalFn && rin.decl_name(i) != rout.decl_name(i) {
+                return fail(
+                    "function-name-renamed",
+                    format!(
+                        "include_functions=false but local function `{}` became `{}`",
+                        rin.decl_name(i),
+                        rout.decl_name(i)
+                    ),
+                    renamed_any,
+                    rout.reuses,
+                );
+            }
+        }
+    }
+    // (c) everything that is not a variable name is untouched
+    if erased.map(|(a, b)| a != b).unwrap_or(false) {
+        return fail(
+            "non-variable-part-changed",
+            "after erasing every declaration and occurrence name the trees differ (field, method, key, string or structure changed)".to_owned(),
+            renamed_any,
+            rout.reuses,
+        );
+    }
+    // (d) generated names are not reserved, not configured globals, not globals of the file
+    let configured = cfg.effective_globals();
+    for i in 0..rout.decls.len() {
+        let kind = rout.decls[i].kind;
+        let generated = match kind {
+            DK::ImplicitSelf | DK::TypeFnParam => false,
+            DK::LocalFn => cfg.incl,
+            _ => true,
+        };
+        if !generated {
+            continue;
+        }
+        let name = rout.decl_name(i);
+        let why = if LUA_KEYWORDS.contains(&name) {
+            Some("a Lua keyword")
+        } else if configured.iter().any(|g| g == name) {
+            Some("in the configured globals list")
+        } else if globals_used.contains(name) {
+            Some("a global the file uses")
+        } else if name.is_empty()
+            || name.as_bytes()[0].is_ascii_digit()
+            || !name.bytes().all(|b| b.is_ascii_alphanumeric() || b == b'_')
+        {
+            Some("not an identifier")
+        } else {
+            None
+        };
+        if let Some(why) = why {
+            return fail(
+                "bad-generated-name",
+                format!("declaration #{} `{}` was renamed to `{}` which is {}", i, rin.decl_name(i), name, why),
+                renamed_any,
+                rout.reuses,
+            );
+        }
+    }
+    // (e) the generated text parses back to the same graph
+    if let Some(text) = text {
+        match Parser::default().parse(&text) {
+            Err(e) => {
+                return fail("output-does-not-parse", format!("{:?} on `{}`", e.to_string(), clip(&text, 300)), renamed_any, rout.reuses)
+            }
+            Ok(mut reparsed) => {
+                let again = Resolver::run(Mode::Luau, false, &mut reparsed);
+                let same = again.targets_equal(&rout)
+                    && (0..again.occs.len()).all(|i| again.occ_name(i) == rout.occ_name(i))
+                    && (0..again.decls.len()).all(|i| again.decl_name(i) == rout.decl_name(i));
+                if !same {
+                    return fail(
+                        "output-text-graph",
+                        format!("the generated text `{}` has a different binding graph than the output tree", clip(&text, 300)),
+                        renamed_any,
+                        rout.reuses,
+                    );
+                }
+            }
+        }
+    }
+    OracleOutcome { failure: None, renamed_any, reuses_out: rout.reuses }
+}
+
+fn clip(text: &str, n: usize) -> String {
+    if text.len() <= n {
+        text.to_owned()
+    } else {
+        let mut end = n;
+        while !text.is_char_boundary(end) {
+            end -= 1;
+        }
+        format!("{}…[{} bytes]", &text[..end], text.len())
+    }
+}
+
+// ------------------------------------------------------------------------------------------
+// program sources: text, or programmatic stress generators (self-contained descriptors)
+// ------------------------------------------------------------------------------------------
+
+#[derive(Clone, Debug, PartialEq, Eq, Hash)]
+enum Src {
+    Text(String),
+    /// `local x` × n (same name, same scope) then `return x`
+    SameName(usize),
+    /// `function t:m() local x, x, … (n names, 1000 per statement) return self end` — the `self` capture witness
+    SelfCapture(usize),
+}
+
+impl Src {
+    fn to_json(&self) -> Value {
+        match self {
+            Src::Text(t) => json!({"program": t}),
+            Src::SameName(n) => json!({"gen": {"kind": "same_name", "locals": n}}),
+            Src::SelfCapture(n) => json!({"gen": {"kind": "self_capture", "locals": n}}),
+        }
+    }
+    fn from_json(v: &Value) -> Option<Src> {
+        if let Some(p) = v["program"].as_str() {
+            return Some(Src::Text(p.to_owned()));
+        }
+        let g = if v["gen"].is_object() { &v["gen"] } else { v };
+        let n = g["locals"].as_u64()? as usize;
+        match g["kind"].as_str()? {
+            "same_name" => Some(Src::SameName(n)),
+            "self_capture" => Some(Src::SelfCapture(n)),
+            _ => None,
+        }
+    }
+    fn materialize(&self) -> Result<Block, String> {
+        match self {
+            Src::Text(text) => match catch_unwind(AssertUnwindSafe(|| Parser::default().parse(text))) {
+                Ok(Ok(block)) => Ok(block),
+                Ok(Err(e)) => Err(e.to_string()),
+                Err(_) => Err("parser panicked".to_owned()),
+            },
+            Src::SameName(n) => {
+                let statements: Vec<Statement> =
+                    (0..*n).map(|_| VariableAssignment::new(vec![TypedIdentifier::new("x")], Vec::new()).into()).collect();
+                Ok(Block::new(statements, Some(ReturnStatement::one(Expression::identifier("x")).into())))
+            }
+            Src::SelfCapture(n) => {
+                // `local x, x, … , x` 1000 names per statement (a Statement node alone is ~0.8 kB)
+                let mut statements: Vec<Statement> = Vec::with_capacity(n / 1000 + 1);
+                let mut left = *n;
+                while left > 0 {
+                    let k = left.min(1000);
+                    let names: Vec<TypedIdentifier> = (0..k).map(|_| TypedIdentifier::new("x")).collect();
+                    statements.push(VariableAssignment::new(names, Vec::new()).into());
+                    left -= k;
+                }
+                let body = Block::new(statements, Some(ReturnStatement::one(Expression::identifier("self")).into()));
+                let name = FunctionName::from_name("t").with_method("m");
+                let function = FunctionStatement::new(name, body, Vec::new(), false);
+                Ok(Block::new(vec![function.into()], None))
+            }
+        }
+    }
+    fn is_small(&self) -> bool {
+        match self {
+            Src::Text(t) => t.len() < 200_000,
+            _ => false,
+        }
+    }
+}
+
+fn case_input(src: &Src, cfg: &Cfg) -> Value {
+    let mut v = src.to_json();
+    let c = cfg.to_json();
+    for (k, x) in c.as_object().unwrap() {
+        v[k] = x.clone();
+    }
+    v
+}
+
+// ------------------------------------------------------------------------------------------
+// per-thread accumulators and the cached model connection
+// ------------------------------------------------------------------------------------------
+
+#[derive(Default)]
+struct Stats {
+    evaluations: u64,
+    nontrivial: HashSet<u64>,
+    hist: BTreeMap<(String, String), u64>,
+    counters: BTreeMap<String, u64>,
+    samples: Vec<Value>,
+    violations: Vec<Violation>,
+    notes: Vec<String>,
+}
+
+impl Stats {
+    fn hist(&mut self, name: &str, bucket: &str) {
+        *self.hist.entry((name.to_owned(), bucket.to_owned())).or_default() += 1;
+    }
+    fn count(&mut self, name: &str, n: u64) {
+        *self.counters.entry(name.to_owned()).or_default() += n;
+    }
+    fn violation(&mut self, kind: &str, check: &str, what: String, input: Value, found: bool) {
+        if self.violations.iter().filter(|v| v.kind == kind && v.check == check).count() >= 3 {
+            self.count("violations_suppressed_in_thread", 1);
+            return;
+        }
+        self.violations.push(Violation {
+            kind: kind.to_owned(),
+            check: check.to_owned(),
+            what,
+            input,
+            failing_input_found: found,
+        });
+    }
+    fn merge_into(self, report: &mut Report) {
+        let trivial = self.evaluations.saturating_sub(self.nontrivial.len() as u64);
+        report.evaluations += trivial;
+        for key in self.nontrivial {
+            report.case(Some(key));
+        }
+        for ((name, bucket), n) in self.hist {
+            *report.histograms.entry(name).or_default().entry(bucket).or_default() += n;
+        }
+        for (name, n) in self.counters {
+            report.count(&name, n);
+        }
+        for s in self.samples {
+            report.sample(s);
+        }
+        for v in self.violations {
+            report.violation(v);
+        }
+        report.notes.extend(self.notes);
+    }
+}
+
+struct CachedModel {
+    model: Model,
+    cache: HashMap<String, String>,
+    hits: u64,
+}
+
+impl CachedModel {
+    fn spawn() -> CachedModel {
+        CachedModel { model: Model::spawn(), cache: HashMap::new(), hits: 0 }
+    }
+    fn ask(&mut self, line: &str) -> String {
+        if let Some(a) = self.cache.get(line) {
+            self.hits += 1;
+            return a.clone();
+        }
+        let answer = self.model.ask(line);
+        if line.len() < 4096 {
+            self.remember(line.to_owned(), answer.clone());
+        }
+        answer
+    }
+    fn remember(&mut self, line: String, answer: String) {
+        if self.cache.len() > 300_000 {
+            self.cache.clear();
+        }
+        self.cache.insert(line, answer);
+    }
+    /// answers for all lines (cached ones are not sent again)
+    fn ask_all(&mut self, lines: &[String]) -> Vec<String> {
+        let mut missing: Vec<String> = Vec::new();
+        let mut seen: HashSet<&str> = HashSet::new();
+        for line in lines {
+            if !self.cache.contains_key(line.as_str()) && seen.insert(line.as_str()) {
+                missing.push(line.clone());
+            }
+        }
+        self.hits += (lines.len() - missing.len()) as u64;
+        let answers = self.model.ask_batch(&missing);
+        let mut fresh: HashMap<String, String> = HashMap::new();
+        for (line, answer) in missing.into_iter().zip(answers) {
+            fresh.insert(line, answer);
+        }
+        let result = lines
+            .iter()
+            .map(|line| self.cache.get(line).or_else(|| fresh.get(line)).cloned().unwrap_or_default())
+            .collect();
+        for (line, answer) in fresh {
+            if line.len() < 4096 {
+                self.remember(line, answer);
+            }
+        }
+        result
+    }
+}
+
+// ------------------------------------------------------------------------------------------
+// one program under several configurations: real code, oracle, then the model
+// ------------------------------------------------------------------------------------------
+
+fn bucket(n: usize) -> &'static str {
+    match n {
+        0 => "0",
+        1..=4 => "1-4",
+        5..=16 => "5-16",
+        17..=64 => "17-64",
+        65..=512 => "65-512",
+        513..=4096 => "513-4096",
+        _ => ">4096",
+    }
+}
+
+struct CfgRun {
+    cfg: Cfg,
+    /// Err = the real rule failed (message)
+    events_out: Result<String, String>,
+    claimed: bool,
+    oracle: Option<OracleOutcome>,
+}
+
+struct Prepared {
+    src: Src,
+    events_in: String,
+    globals_real: Result<String, String>,
+    resolve_indep: Option<String>,
+    hannot: bool,
+    shadows: u64,
+    captures: u64,
+    runs: Vec<CfgRun>,
+}
+
+/// everything that does not need the model
+fn prepare(src: &Src, cfgs: &[Cfg], family: &str, st: &mut Stats, reparse: bool, text_path: bool) -> Option<Prepared> {
+    let mut block_in = match src.materialize() {
+        Ok(b) => b,
+        Err(e) => {
+            if std::env::var("C09_DEBUG_PARSE").is_ok() && st.counters.get("dbg").copied().unwrap_or(0) < 3 {
+                st.count("dbg", 1);
+                eprintln!("--- parse failure: {}\n{}", clip(&e, 200), src.to_json()["program"].as_str().unwrap_or(""));
+            }
+            st.hist("outcome", "input-does-not-parse(skipped)");
+            st.hist(&format!("parse-skips:{}", family), "n");
+            return None;
+        }
+    };
+    let events_in = match record_events(&mut block_in) {
+        Ok(e) => e,
+        Err(what) => {
+            st.violation("correspondence", "recorder", what, src.to_json(), false);
+            return None;
+        }
+    };
+    if !wire_names_ok(&events_in) {
+        st.hist("outcome", "non-wire-name(skipped)");
+        return None;
+    }
+    let globals_real = real_globals(&mut block_in.clone());
+    let facts = input_facts(&block_in);
+    // per-program distribution
+    st.hist("family", family);
+    st.hist("max_live_locals", bucket(facts.luau.max_live));
+    st.hist("declarations", bucket(facts.luau.decls.len()));
+    st.hist("occurrences", bucket(facts.luau.occs.len()));
+    for k in &facts.luau.shape.stmt_kinds {
+        st.hist("statement_kind(programs containing)", k);
+    }
+    for k in &facts.luau.shape.scope_kinds {
+        st.hist("scope_kind(programs containing)", k);
+    }
+    if facts.luau.shape.has_types {
+        st.hist("feature(programs containing)", "luau-type-annotation");
+    }
+    if facts.luau.shadows > 0 {
+        st.hist("feature(programs containing)", "shadowing");
+    }
+    if facts.luau.captures > 0 {
+        st.hist("feature(programs containing)", "upvalue-capture");
+    }
+    if facts.luau.reuses > 0 {
+        st.hist("feature(programs containing)", "name-redeclared-after-scope-exit");
+    }
+    if facts.luau.decls.iter().any(|d| d.kind == DK::ImplicitSelf) {
+        st.hist("feature(programs containing)", "implicit-self");
+    }
+    if !facts.globals_used.is_empty() {
+        st.hist("feature(programs containing)", "global-use");
+    }
+    if !facts.hannot {
+        st.hist("feature(programs containing)", "outside-Hannot");
+    }
+    let resolve_indep = if facts.hannot && !facts.luau.shape.has_type_fn_params {
+        Some(facts.luau.resolve_wire())
+    } else {
+        None
+    };
+    let mut runs = Vec::with_capacity(cfgs.len());
+    for (i, cfg) in cfgs.iter().enumerate() {
+        st.evaluations += 1;
+        st.hist("config", &format!("incl={} detect={}", cfg.incl as u8, cfg.detect as u8));
+        let mut block_out = block_in.clone();
+        // a third of the generated cases go through the json5 configuration text
+        let mut cfg = cfg.clone();
+        if text_path && !cfg.via_text && (hash_of(&events_in).wrapping_add(i as u64)) % 3 == 0 {
+            cfg.via_text = true;
+        }
+        let cfg = &cfg;
+        st.hist("rule_built_from", if cfg.via_text { "json5 config text ($default + list)" } else { "RenameVariables::new(list)" });
+        let is_claimed = claimed(&facts, cfg);
+        let events_out = apply_rule(&mut block_out, cfg).and_then(|_| record_events(&mut block_out));
+        let mut outcome = None;
+        if events_out.is_ok() {
+            if is_claimed {
+                st.hist("oracle", if facts.hannot { "judged" } else { "judged(outside Hannot)" });
+                outcome = Some(oracle(&facts, block_out, cfg, reparse && src.is_small()));
+            } else {
+                st.hist("oracle", "not-claimed(detect off, globals not covered)");
+            }
+        }
+        runs.push(CfgRun { cfg: cfg.clone(), events_out, claimed: is_claimed, oracle: outcome });
+    }
+    Some(Prepared {
+        src: src.clone(),
+        events_in,
+        globals_real,
+        resolve_indep,
+        hannot: facts.hannot,
+        shadows: facts.luau.shadows,
+        captures: facts.luau.captures,
+        runs,
+    })
+}
+
+/// model questions for prepared programs, comparison, violation reporting
+fn judge(prepared: Vec<Prepared>, model: &mut CachedModel, st: &mut Stats, search: &mut Rng) {
+    let mut lines: Vec<String> = Vec::new();
+    for p in &prepared {
+        lines.push(format!("c09.globals {}", p.events_in));
+        lines.push(format!("c09.resolve {}", p.events_in));
+        for run in &p.runs {
+            lines.push(format!("c09.rename {} {}", run.cfg.wire(), p.events_in));
+        }
+    }
+    let answers = model.ask_all(&lines);
+    let mut k = 0;
+    for p in &prepared {
+        let globals_model = &answers[k];
+        let resolve_model = &answers[k + 1];
+        k += 2;
+        let any_cfg = p.runs.first().map(|r| r.cfg.clone()).unwrap_or_else(|| Cfg::new(false, true, &[]));
+        match &p.globals_real {
+            Ok(real) if real == globals_model => {}
+            Ok(real) => correspondence_break(
+                st,
+                model,
+                search,
+                &p.src,
+                &any_cfg,
+                "collect-globals",
+                format!("CollectGlobalsProcessor = {} ; model c09.globals = {}", clip(real, 200), clip(globals_model, 200)),
+            ),
+            Err(what) => correspondence_break(st, model, search, &p.src, &any_cfg, "collect-globals", what.clone()),
+        }
+        if let Some(indep) = &p.resolve_indep {
+            if indep != resolve_model {
+                correspondence_break(
+                    st,
+                    model,
+                    search,
+                    &p.src,
+                    &any_cfg,
+                    "resolve-vs-independent-resolver",
+                    format!(
+                        "Lean reference resolver = {} ; independent Lua-manual resolver on the AST = {}",
+                        clip(resolve_model, 200),
+                        clip(indep, 200)
+                    ),
+                );
+            }
+        }
+        for run in &p.runs {
+            let rename_model = &answers[k];
+            k += 1;
+            let mut nontrivial = false;
+            match &run.events_out {
+                Ok(real) if real == rename_model => {
+                    st.count("rename_streams_equal", 1);
+                }
+                Ok(real) => correspondence_break(
+                    st,
+                    model,
+                    search,
+                    &p.src,
+                    &run.cfg,
+                    "rename-event-stream",
+                    format!("first difference: {}", first_difference(real, rename_model)),
+                ),
+                Err(what) => {
+                    correspondence_break(st, model, search, &p.src, &run.cfg, "real-rule-failed", what.clone())
+                }
+            }
+            if let Some(outcome) = &run.oracle {
+                if let Some((check, what)) = &outcome.failure {
+                    let hself = model.ask(&format!("c09.hself {} {}", run.cfg.wire(), p.events_in));
+                    if !p.hannot {
+                        st.hist("oracle", "failed-outside-Hannot(known defect region, silent)");
+                    } else if hself != "true" {
+                        st.hist("oracle", "failed-outside-Hself(known defect region, silent)");
+                    } else {
+                        st.violation("oracle", check, what.clone(), case_input(&p.src, &run.cfg), true);
+                    }
+                } else {
+                    nontrivial = outcome.renamed_any && (p.shadows + p.captures + outcome.reuses_out) > 0;
+                    if outcome.reuses_out > 0 {
+                        st.hist("oracle", "passed, output reuses a generated name after scope exit");
+                    }
+                }
+            } else if run.events_out.is_ok() {
+                nontrivial = p.shadows + p.captures > 0 && run.events_out.as_ref().ok() != Some(&p.events_in);
+            }
+            if nontrivial {
+                st.nontrivial.insert(hash_of(&(&p.events_in, &run.cfg)));
+            }
+            if st.samples.len() < 2 && nontrivial && p.src.is_small() && p.events_in.len() > 60 {
+                st.samples.push(json!({
+                    "input": case_input(&p.src, &run.cfg),
+                    "events_in": clip(&p.events_in, 400),
+                    "events_out": clip(run.events_out.as_ref().map(|s| s.as_str()).unwrap_or(""), 400),
+                    "claimed": run.claimed,
+                }));
+            }
+        }
+    }
+}
+
+fn first_difference(real: &str, model: &str) -> String {
+    let a: Vec<&str> = real.split(';').collect();
+    let b: Vec<&str> = model.split(';').collect();
+    for i in 0..a.len().max(b.len()) {
+        let x = a.get(i).copied().unwrap_or("<end>");
+        let y = b.get(i).copied().unwrap_or("<end>");
+        if x != y {
+            return format!("event #{}: real `{}` model `{}` (real stream {} events, model answer {})", i, x, y, a.len(), clip(model, 120));
+        }
+    }
+    "none".to_owned()
+}
+
+/// only the oracle, on one input; Some(check, what) when the property fails inside the claimed,
+/// proved region (Hannot and Hself hold)
+fn oracle_only(src: &Src, cfg: &Cfg, model: &mut CachedModel) -> Option<(String, String)> {
+    let mut block_in = src.materialize().ok()?;
+    let facts = input_facts(&block_in);
+    if !facts.hannot || !claimed(&facts, cfg) {
+        return None;
+    }
+    let mut block_out = block_in.clone();
+    apply_rule(&mut block_out, cfg).ok()?;
+    let outcome = oracle(&facts, block_out, cfg, true);
+    let failure = outcome.failure?;
+    let events_in = record_events(&mut block_in).ok()?;
+    if !wire_names_ok(&events_in) {
+        return None;
+    }
+    if model.ask(&format!("c09.hself {} {}", cfg.wire(), events_in)) != "true" {
+        return None;
+    }
+    Some(failure)
+}
+
+/// BUILDING.md protocol: before reporting a model/code difference look for an input on which the
+/// property itself fails (the input, other configurations, one-step mutations, random neighbours).
+fn correspondence_break(
+    st: &mut Stats,
+    model: &mut CachedModel,
+    search: &mut Rng,
+    src: &Src,
+    cfg: &Cfg,
+    check: &str,
+    what: String,
+) {
+    if st.violations.iter().filter(|v| v.check == check || v.check.starts_with(check)).count() >= 3 {
+        st.count("violations_suppressed_in_thread", 1);
+        return;
+    }
+    // a systematic break makes every case differ: investigate only the first few per worker
+    // (each investigation runs ~220 further programs), the rest are counted
+    if st.counters.get("correspondence_breaks_investigated").copied().unwrap_or(0) >= 4 {
+        st.count("correspondence_breaks_counted_only", 1);
+        return;
+    }
+    st.count("correspondence_breaks_investigated", 1);
+    let mut candidates: Vec<(Src, Cfg)> = Vec::new();
+    let mut cfgs = vec![cfg.clone()];
+    for incl in [false, true] {
+        for globals in [Vec::new(), cfg.globals.clone(), strs(&["a", "b", "c", "print"])] {
+            cfgs.push(Cfg { incl, detect: true, globals, via_text: false });
+        }
+    }
+    for c in &cfgs {
+        candidates.push((src.clone(), c.clone()));
+    }
+    if let Src::Text(text) = src {
+        if text.len() < 4000 {
+            for mutant in mutations(text, search, 60) {
+                candidates.push((Src::Text(mutant), cfgs[search.below(cfgs.len())].clone()));
+            }
+        }
+        for _ in 0..150 {
+            let program = random_program(&mut search.fork(), 5, true);
+            candidates.push((Src::Text(program), cfgs[search.below(cfgs.len())].clone()));
+        }
+    }
+    for (s, c) in candidates {
+        if let Some((ocheck, owhat)) = oracle_only(&s, &c, model) {
+            st.violation(
+                "oracle",
+                &ocheck,
+                format!("{} (found while investigating a correspondence break in `{}`: {})", owhat, check, clip(&what, 300)),
+                case_input(&s, &c),
+                true,
+            );
+            return;
+        }
+    }
+    st.violation("correspondence", check, what, case_input(src, cfg), false);
+}
+
+fn strs(names: &[&str]) -> Vec<String> {
+    names.iter().map(|s| (*s).to_owned()).collect()
+}
+
+/// one-step mutations of a program text: drop a line, swap one identifier token for another
+fn mutations(text: &str, rng: &mut Rng, budget: usize) -> Vec<String> {
+    let mut out = Vec::new();
+    let lines: Vec<&str> = text.split('\n').collect();
+    if lines.len() > 1 {
+        for _ in 0..budget / 3 {
+            let skip = rng.below(lines.len());
+            let kept: Vec<&str> = lines.iter().enumerate().filter(|(i, _)| *i != skip).map(|(_, l)| *l).collect();
+            out.push(kept.join("\n"));
+        }
+    }
+    let bytes = text.as_bytes();
+    let mut tokens: Vec<(usize, usize)> = Vec::new();
+    let mut i = 0;
+    while i < bytes.len() {
+        if bytes[i].is_ascii_alphabetic() || bytes[i] == b'_' {
+            let start = i;
+            while i < bytes.len() && (bytes[i].is_ascii_alphanumeric() || bytes[i] == b'_') {
+                i += 1;
+            }
+            if !LUA_KEYWORDS.contains(&&text[start..i]) {
+                tokens.push((start, i));
+            }
+        } else {
+            i += 1;
+        }
+    }
+    if !tokens.is_empty() {
+        for _ in 0..(budget - out.len().min(budget)) {
+            let (s, e) = tokens[rng.below(tokens.len())];
+            let (s2, e2) = tokens[rng.below(tokens.len())];
+            let replacement = if rng.chance(1, 3) { "a" } else { &text[s2..e2] };
+            out.push(format!("{}{}{}", &text[..s], replacement, &text[e..]));
+        }
+    }
+    out
+}
+
+/// run a list of (program, configurations) on the calling thread
+fn run_items(items: &[Item], family: &str, model: &mut CachedModel, st: &mut Stats, search: &mut Rng, reparse: bool) {
+    // corpus / replay inputs say themselves how the rule is built; generated ones are spread
+    let text_path = family != "corpus" && family != "replay" && *TEXT_PATH_OK.get_or_init(default_globals_copy_is_current);
+    for chunk in items.chunks(48) {
+        let mut prepared = Vec::with_capacity(chunk.len());
+        for (src, cfgs) in chunk {
+            if let Some(p) = prepare(src, cfgs, family, st, reparse, text_path) {
+                prepared.push(p);
+            }
+        }
+        judge(prepared, model, st, search);
+    }
+}
+
+/// spread the items over THREADS workers (one model process each)
+fn run_parallel(report: &mut Report, family: &str, items: Vec<Item>, reparse: bool) {
+    if items.is_empty() {
+        return;
+    }
+    let started = Instant::now();
+    let n = items.len();
+    let threads = THREADS.min(n.max(1));
+    let per = (n + threads - 1) / threads;
+    let seed = report.seed;
+    let results: Vec<Stats> = std::thread::scope(|scope| {
+        let handles: Vec<_> = items
+            .chunks(per)
+            .enumerate()
+            .map(|(t, slice)| {
+                // deeply nested inputs recurse in the parser, the rule and the resolver: a stack
+                // overflow cannot be caught, so the workers get a large (virtual) stack
+                std::thread::Builder::new().stack_size(1 << 30).spawn_scoped(scope, move || {
+                    let mut st = Stats::default();
+                    let mut model = CachedModel::spawn();
+                    let mut search = Rng::new(seed ^ hash_of(&(family, t)));
+                    run_items(slice, family, &mut model, &mut st, &mut search, reparse);
+                    st.count("model_requests", model.model.requests);
+                    st.count("model_cache_hits", model.hits);
+                    st
+                })
+                .expect("cannot spawn a worker thread")
+            })
+            .collect();
+        handles
+            .into_iter()
+            .map(|h| match h.join() {
+                Ok(st) => st,
+                Err(payload) => {
+                    let message = payload
+                        .downcast_ref::<String>()
+                        .cloned()
+                        .or_else(|| payload.downcast_ref::<&str>().map(|s| (*s).to_owned()))
+                        .unwrap_or_default();
+                    let mut st = Stats::default();
+                    st.violation(
+                        "correspondence",
+                        "harness-thread-died",
+                        format!("a worker thread panicked (model driver died?): {}", clip(&message, 500)),
+                        json!({}),
+                        false,
+                    );
+                    st
+                }
+            })
+            .collect()
+    });
+    for st in results {
+        st.merge_into(report);
+    }
+    report.notes.push(format!("{}: {} programs in {:.1}s", family, n, started.elapsed().as_secs_f64()));
+}
+
+// ------------------------------------------------------------------------------------------
+// configurations
+// ------------------------------------------------------------------------------------------
+
+/// the 12 configurations every enumerated program is crossed with:
+/// include_functions × detect_globals × {[], names the generator collides with, names the
+/// programs use as locals / self / table roots}
+fn all_configs() -> Vec<Cfg> {
+    let lists: [&[&str]; 3] = [&[], &["a", "b", "c", "print"], &["x", "a", "self", "t", "print", "b", "M"]];
+    let mut out = Vec::new();
+    for incl in [false, true] {
+        for detect in [true, false] {
+            for list in lists {
+                out.push(Cfg::new(incl, detect, list));
+            }
+        }
+    }
+    out
+}
+
+/// quick tier: 4 of the 12 configurations per program, rotating with the program index so that
+/// every configuration is exercised over the enumeration and each program sees both values of
+/// every switch
+fn config_slice(all: &[Cfg], index: usize, thorough: bool) -> Vec<Cfg> {
+    if thorough {
+        return all.to_vec();
+    }
+    // all: incl(2) × detect(2) × lists(3), index = incl*6 + detect*3 + list
+    let r = index % 3;
+    vec![
+        all[r].clone(),                 // incl=0 detect=1
+        all[3 + (r + 1) % 3].clone(),   // incl=0 detect=0
+        all[6 + (r + 2) % 3].clone(),   // incl=1 detect=1
+        all[9 + r].clone(),             // incl=1 detect=0
+    ]
+}
+
+fn random_config(rng: &mut Rng, program: &str) -> Cfg {
+    let incl = rng.chance(1, 2);
+    let detect = rng.chance(2, 3);
+    let globals = match rng.below(5) {
+        0 => Vec::new(),
+        1 => strs(&["a", "b", "c", "print"]),
+        2 => strs(&["x", "y", "self", "print", "t", "M", "a"]),
+        3 => {
+            // names the program itself uses (locals and globals alike)
+            let mut names: Vec<String> = Vec::new();
+            for token in program.split(|c: char| !(c.is_ascii_alphanumeric() || c == '_')) {
+                if !token.is_empty()
+                    && !token.as_bytes()[0].is_ascii_digit()
+                    && !LUA_KEYWORDS.contains(&token)
+                    && !names.iter().any(|n| n == token)
+                    && rng.chance(1, 2)
+                {
+                    names.push(token.to_owned());
+                }
+                if names.len() >= 12 {
+                    break;
+                }
+            }
+            names
+        }
+        _ => strs(&["a", "b", "c", "d", "e", "f", "g", "h", "i", "j", "k", "l", "m", "n", "aa", "ab", "_", "A"]),
+    };
+    Cfg { incl, detect, globals, via_text: false }
+}
+
+// ------------------------------------------------------------------------------------------
+// (i) exhaustive enumeration of small programs
+// ------------------------------------------------------------------------------------------
+
+fn join2(a: &str, b: &str) -> String {
+    match (a.is_empty(), b.is_empty()) {
+        (true, _) => b.to_owned(),
+        (_, true) => a.to_owned(),
+        _ => format!("{}\n{}", a, b),
+    }
+}
+
+/// leaf statements: every `local n = e` over n ∈ {x,a}, e ∈ {x,a,1}, and a use of x / a / self
+fn leaf_statements() -> Vec<String> {
+    let mut out = Vec::new();
+    for n in ["x", "a"] {
+        for e in ["x", "a", "1"] {
+            out.push(format!("local {} = {}", n, e));
+        }
+    }
+    for n in ["x", "a", "self"] {
+        out.push(format!("{}()", n));
+    }
+    out
+}
+
+fn returns() -> Vec<&'static str> {
+    vec!["", "return x", "return a", "return self"]
+}
+
+/// bodies with at most one leaf statement and an optional return (40)
+fn small_bodies() -> Vec<String> {
+    let mut out = Vec::new();
+    let mut leafs = vec![String::new()];
+    leafs.extend(leaf_statements());
+    for s in &leafs {
+        for r in returns() {
+            out.push(join2(s, r));
+        }
+    }
+    out
+}
+
+/// block-carrying statement templates (prefix, suffix); the body goes in between
+fn templates(full: bool) -> Vec<(String, String)> {
+    let mut t: Vec<(String, String)> = Vec::new();
+    let mut add = |p: &str, s: &str| t.push((p.to_owned(), s.to_owned()));
+    if full {
+        add("do", "end");
+        for n in ["x", "a"] {
+            add(&format!("while {} do", n), "end");
+            add("repeat", &format!("until {}", n));
+            add(&format!("if {} then", n), "end");
+        }
+        add("for x = 1, a do", "end");
+        add("for a = 1, x do", "end");
+        add("for x = x, 1 do", "end");
+        add("for x, a in x do", "end");
+        add("for a, x in a do", "end");
+        add("for x, x in a do", "end");
+        for n in ["x", "a"] {
+            for p in ["", "x", "a"] {
+                add(&format!("local function {}({})", n, p), "end");
+                add(&format!("local {} = function({})", n, p), "end");
+            }
+            for p in ["", "x", "a"] {
+                let name = if n == "x" { "x".to_owned() } else { "a.b".to_owned() };
+                add(&format!("function {}({})", name, p), "end");
+            }
+            for p in ["", "x", "self"] {
+                add(&format!("function {}:m({})", n, p), "end");
+            }
+        }
+        add("x = function(...)", "end");
+    } else {
+        add("do", "end");
+        add("while x do", "end");
+        add("repeat", "until a");
+        add("for x = 1, a do", "end");
+        add("for a, x in x do", "end");
+        add("if a then", "end");
+        add("local function a(x)", "end");
+        add("function x:m()", "end");
+        add("function a.b(self)", "end");
+        add("local x = function(a)", "end");
+        add("function x(...)", "end");
+    }
+    t
+}
+
+fn wrap(t: &(String, String), body: &str) -> String {
+    if body.is_empty() {
+        format!("{} {}", t.0, t.1)
+    } else {
+        format!("{}\n{}\n{}", t.0, body, t.1)
+    }
+}
+
+/// E1: [pre] T(B) [post] [return]; quick: at most one of pre/post
+fn enum_e1(thorough: bool) -> Vec<String> {
+    let mut pres = vec![String::new()];
+    pres.extend(leaf_statements());
+    let bodies = small_bodies();
+    let ts = templates(true);
+    let mut out = Vec::new();
+    for t in &ts {
+        for b in &bodies {
+            let s = wrap(t, b);
+            for pre in &pres {
+                for post in &pres {
+                    if !thorough && !pre.is_empty() && !post.is_empty() {
+                        continue;
+                    }
+                    for r in returns() {
+                        out.push(join2(&join2(pre, &s), &join2(post, r)));
+                    }
+                }
+            }
+        }
+    }
+    out
+}
+
+/// E2: T(T(B)) with the 11 reduced templates; thorough: also a leaf statement in front
+fn enum_e2(thorough: bool) -> Vec<String> {
+    let ts = templates(false);
+    let bodies = small_bodies();
+    let mut pres = vec![String::new()];
+    if thorough {
+        pres.extend(leaf_statements());
+    }
+    let mut out = Vec::new();
+    for t1 in &ts {
+        for t2 in &ts {
+            for b in &bodies {
+                let s = wrap(t1, &wrap(t2, b));
+                for pre in &pres {
+                    for r in returns() {
+                        out.push(join2(&join2(pre, &s), r));
+                    }
+                }
+            }
+        }
+    }
+    out
+}
+
+/// E3: two sibling scopes T(s1) ; T(s2) ; return — the reuse pool after a scope closes
+fn enum_e3() -> Vec<String> {
+    let ts = templates(false);
+    let mut leafs = vec![String::new()];
+    leafs.extend(leaf_statements());
+    let mut out = Vec::new();
+    for t1 in &ts {
+        for s1 in &leafs {
+            for t2 in &ts {
+                for s2 in &leafs {
+                    for r in returns() {
+                        out.push(join2(&join2(&wrap(t1, s1), &wrap(t2, s2)), r));
+                    }
+                }
+            }
+        }
+    }
+    out
+}
+
+/// E4: if / elseif / else with every triple of leaf bodies, after `local x = 1`
+fn enum_e4() -> Vec<String> {
+    let mut leafs = vec![String::new()];
+    leafs.extend(leaf_statements());
+    let mut out = Vec::new();
+    for b1 in &leafs {
+        for b2 in &leafs {
+            for b3 in &leafs {
+                for r in returns() {
+                    let s = format!("local x = 1\nif x then\n{}\nelseif a then\n{}\nelse\n{}\nend", b1, b2, b3);
+                    out.push(join2(&s, r));
+                }
+            }
+        }
+    }
+    out
+}
+
+fn paren_if_compound(e: &str) -> String {
+    let atom = e.bytes().all(|b| b.is_ascii_alphanumeric() || b == b'_' || b == b'.');
+    if atom && e != "..." {
+        e.to_owned()
+    } else if e == "..." {
+        e.to_owned()
+    } else {
+        format!("({})", e)
+    }
+}
+
+/// E5: every expression form to depth 2 over x, a, self, 1, `...` in 5 statement positions × 4 preludes
+fn enum_e5() -> Vec<String> {
+    let atoms = ["x", "a", "self", "1", "..."];
+    let names = ["x", "a", "self"];
+    let mut d1: Vec<String> = atoms.iter().map(|s| (*s).to_owned()).collect();
+    for s in atoms {
+        d1.push(format!("t[{}]", s));
+        d1.push(format!("{{x = {}}}", s));
+        d1.push(format!("{{{}}}", s));
+        d1.push(format!("({})", s));
+        d1.push(format!("not {}", s));
+        d1.push(format!("({} :: a.T)", s));
+        d1.push(format!("`x{{{}}}a`", s));
+        for p in ["", "x", "a", "..."] {
+            if s != "..." || p == "..." {
+                d1.push(format!("function({}) return {} end", p, s));
+            }
+        }
+        for s2 in atoms {
+            d1.push(format!("{{[{}] = {}}}", s, s2));
+            d1.push(format!("{} + {}", s, s2));
+            d1.push(format!("if {} then {} else 1", s, s2));
+        }
+    }
+    for n in names {
+        d1.push(format!("{}.x", n));
+        for s2 in atoms {
+            d1.push(format!("{}:a({})", n, s2));
+            d1.push(format!("{}({})", n, s2));
+        }
+        for n2 in names {
+            d1.push(format!("(1 :: typeof({}.{}))", n, n2));
+        }
+    }
+    let mut exprs = d1.clone();
+    for e in &d1[atoms.len()..] {
+        let p = paren_if_compound(e);
+        exprs.push(format!("t[{}]", e));
+        exprs.push(format!("{{x = {}}}", e));
+        exprs.push(format!("{{{}, a = x}}", e));
+        exprs.push(format!("{{[{}] = a}}", e));
+        exprs.push(format!("not {}", p));
+        exprs.push(format!("{} + x", p));
+        exprs.push(format!("a .. {}", p));
+        exprs.push(format!("x({})", e));
+        exprs.push(format!("x:self({})", e));
+        exprs.push(format!("{}.a", p));
+        for q in ["", "x", "a", "..."] {
+            if !e.contains("...") || q == "..." {
+                exprs.push(format!("function({}) return {} end", q, e));
+            }
+        }
+    }
+    let preludes = ["", "local x = 1", "local a, self = 1, 2", "local function a() end"];
+    let mut out = Vec::new();
+    for prelude in preludes {
+        for e in &exprs {
+            out.push(join2(prelude, &format!("local x = {}", e)));
+            out.push(join2(prelude, &format!("local a, x = {}, x", e)));
+            out.push(join2(prelude, &format!("return {}", e)));
+            out.push(join2(prelude, &format!("x = {}", e)));
+            out.push(join2(prelude, &format!("x[{}], a.x = a", e)));
+        }
+    }
+    out
+}
+
+/// E6: `local n1, n2 = e1, e2` over 3 names and 3 values, 4 preludes, 4 returns
+fn enum_e6() -> Vec<String> {
+    let mut out = Vec::new();
+    for prelude in ["", "local x = 1", "local a, self = 1, 2", "function x:m() end"] {
+        for n1 in ["x", "a", "self"] {
+            for n2 in ["x", "a", "self"] {
+                for e1 in ["x", "a", "1"] {
+                    for e2 in ["x", "self", "1"] {
+                        for r in returns() {
+                            out.push(join2(prelude, &join2(&format!("local {}, {} = {}, {}", n1, n2, e1, e2), r)));
+                        }
+                    }
+                }
+            }
+        }
+    }
+    out
+}
+
+// ------------------------------------------------------------------------------------------
+// (ii) random structured programs
+// ------------------------------------------------------------------------------------------
+
+const LOCAL_POOL: [&str; 25] = [
+    "x", "y", "z", "a", "b", "c", "d", "e", "aa", "ab", "ba", "self", "print", "i", "k", "v", "f", "g", "t", "M", "_", "A",
+    "_0", "n", "x",
+];
+const GLOBAL_POOL: [&str; 12] = ["print", "a", "b", "c", "t", "M", "G", "self", "game", "x", "d", "aa"];
+const FIELD_POOL: [&str; 8] = ["x", "a", "b", "self", "f", "m", "T", "print"];
+
+struct PGen<'r> {
+    rng: &'r mut Rng,
+    scopes: Vec<Vec<String>>,
+    vararg: Vec<bool>,
+    budget: i32,
+    max_depth: usize,
+    types: bool,
+}
+
+impl<'r> PGen<'r> {
+    fn use_name(&mut self) -> String {
+        let roll = self.rng.below(100);
+        let visible: Vec<&String> = self.scopes.iter().flatten().collect();
+        if roll < 55 && !visible.is_empty() {
+            // favour recent declarations
+            let n = visible.len();
+            let i = if self.rng.chance(1, 2) { n - 1 - self.rng.below(n.min(4)) } else { self.rng.below(n) };
+            return visible[i].clone();
+        }
+        if roll < 78 {
+            return (*self.rng.pick(&GLOBAL_POOL)).to_owned();
+        }
+        if roll < 86 {
+            return "self".to_owned();
+        }
+        (*self.rng.pick(&LOCAL_POOL)).to_owned()
+    }
+
+    fn decl_name(&mut self) -> String {
+        let roll = self.rng.below(100);
+        let visible: Vec<&String> = self.scopes.iter().flatten().collect();
+        if roll < 30 && !visible.is_empty() {
+            let i = self.rng.below(visible.len());
+            return visible[i].clone();
+        }
+        if roll < 48 {
+            return (*self.rng.pick(&GLOBAL_POOL)).to_owned();
+        }
+        (*self.rng.pick(&LOCAL_POOL)).to_owned()
+    }
+
+    fn declare(&mut self, name: &str) {
+        self.scopes.last_mut().unwrap().push(name.to_owned());
+    }
+
+    fn field(&mut self) -> &'static str {
+        *self.rng.pick(&FIELD_POOL)
+    }
+
+    /// a type mentioning variables only through names outside `avoid` (SAFE positions only)
+    fn ty(&mut self, avoid: &[String]) -> String {
+        let mut name = String::new();
+        for _ in 0..6 {
+            let candidate = self.use_name();
+            if !avoid.contains(&candidate) {
+                name = candidate;
+                break;
+            }
+        }
+        if name.is_empty() {
+            return "number".to_owned();
+        }
+        match self.rng.below(8) {
+            0 => "number".to_owned(),
+            1 | 2 => format!("{}.T", name),
+            3 | 4 => format!("typeof({})", name),
+            5 => format!("{}.{}?", name, self.field()),
+            6 => format!("{{ x: {}.T, [string]: typeof({}.{}) }}", name, name, self.field()),
+            _ => format!("(typeof({})) -> {}.T<number>", name, name),
+        }
+    }
+
+    fn maybe_ty(&mut self, avoid: &[String]) -> String {
+        if self.types && self.rng.chance(1, 3) {
+            format!(": {}", self.ty(avoid))
+        } else {
+            String::new()
+        }
+    }
+
+    fn prefix(&mut self, depth: usize) -> String {
+        let name = self.use_name();
+        match self.rng.below(8) {
+            0 | 1 => format!("{}.{}", name, self.field()),
+            2 => format!("{}[{}]", name, self.expr(depth + 1)),
+            3 => format!("{}.{}.{}", name, self.field(), self.field()),
+            _ => name,
+        }
+    }
+
+    fn args(&mut self, depth: usize) -> String {
+        let n = self.rng.below(3);
+        (0..n).map(|_| self.expr(depth + 1)).collect::<Vec<_>>().join(", ")
+    }
+
+    fn call(&mut self, depth: usize) -> String {
+        let p = self.prefix(depth);
+        match self.rng.below(8) {
+            0 | 1 | 2 => format!("{}:{}({})", p, self.field(), self.args(depth)),
+            3 => format!("{}\"{}\"", p, self.field()),
+            4 => format!("{}{{{} = {}}}", p, self.field(), self.expr(depth + 1)),
+            _ => format!("{}({})", p, self.args(depth)),
+        }
+    }
+
+    /// (parameter list text, declared names, is_vararg); annotations avoid the binders themselves
+    fn signature(&mut self, own_name: Option<&str>, allow_self_param: bool) -> (String, Vec<String>, bool, String) {
+        let n = self.rng.below(4);
+        let mut names: Vec<String> = Vec::new();
+        for _ in 0..n {
+            let mut p = self.decl_name();
+            if p == "self" && !allow_self_param && self.rng.chance(1, 2) {
+                p = "x".to_owned();
+            }
+            names.push(p);
+        }
+        let mut avoid = names.clone();
+        if let Some(own) = own_name {
+            avoid.push(own.to_owned());
+        }
+        let mut parts: Vec<String> = Vec::new();
+        for p in &names {
+            let t = self.maybe_ty(&avoid);
+            parts.push(format!("{}{}", p, t));
+        }
+        let vararg = self.rng.chance(1, 4);
+        if vararg {
+            let t = self.maybe_ty(&avoid);
+            parts.push(format!("...{}", t));
+        }
+        let ret = self.maybe_ty(&avoid);
+        (parts.join(", "), names, vararg, ret)
+    }
+
+    fn function_body(&mut self, depth: usize, params: Vec<String>, vararg: bool) -> String {
+        self.vararg.push(vararg);
+        let body = self.block(depth + 1, params, false, false);
+        self.vararg.pop();
+        body
+    }
+
+    fn expr(&mut self, depth: usize) -> String {
+        let deep = depth >= 3;
+        let roll = if deep { self.rng.below(40) } else { self.rng.below(100) };
+        match roll {
+            0..=24 => self.use_name(),
+            25..=30 => self.rng.below(10).to_string(),
+            31..=33 => format!("\"{}\"", self.use_name()),
+            34..=36 => {
+                if *self.vararg.last().unwrap_or(&true) {
+                    "...".to_owned()
+                } else {
+                    "nil".to_owned()
+                }
+            }
+            37..=39 => "true".to_owned(),
+            40..=47 => format!("{}.{}", self.prefix(depth), self.field()),
+            48..=52 => format!("{}[{}]", self.prefix(depth), self.expr(depth + 1)),
+            53..=62 => self.call(depth),
+            63..=70 => {
+                let n = self.rng.below(4);
+                let mut entries = Vec::new();
+                for _ in 0..n {
+                    let v = self.expr(depth + 1);
+                    entries.push(match self.rng.below(3) {
+                        0 => format!("{} = {}", self.field(), v),
+                        1 => format!("[{}] = {}", self.expr(depth + 1), v),
+                        _ => v,
+                    });
+                }
+                format!("{{{}}}", entries.join(", "))
+            }
+            71..=80 => {
+                if self.budget <= 0 || depth + 1 >= self.max_depth {
+                    return self.use_name();
+                }
+                let (params, names, vararg, ret) = self.signature(None, true);
+                let body = self.function_body(depth, names, vararg);
+                format!("function({}){}\n{}\nend", params, ret, body)
+            }
+            81..=86 => {
+                let op = *self.rng.pick(&["+", "..", "==", "and", "or", "<", "*"]);
+                format!("({} {} {})", self.expr(depth + 1), op, self.expr(depth + 1))
+            }
+            87..=89 => format!("(not {})", self.expr(depth + 1)),
+            90..=92 => format!("({})", self.expr(depth + 1)),
+            93..=95 => {
+                if self.types {
+                    let t = self.ty(&[]);
+                    format!("({} :: {})", self.expr(depth + 1), t)
+                } else {
+                    self.use_name()
+                }
+            }
+            96..=97 => format!("(if {} then {} else {})", self.expr(depth + 1), self.expr(depth + 1), self.expr(depth + 1)),
+            _ => format!("`{}{{ {} }}x`", self.field(), self.expr(depth + 1)),
+        }
+    }
+
+    fn exprs(&mut self, lo: usize, hi: usize, depth: usize) -> String {
+        let n = lo + self.rng.below(hi - lo + 1);
+        (0..n).map(|_| self.expr(depth)).collect::<Vec<_>>().join(", ")
+    }
+
+    /// statements of a block; `until`: a repeat body (the condition sees the body's locals)
+    fn block(&mut self, depth: usize, pre: Vec<String>, in_loop: bool, until: bool) -> String {
+        self.scopes.push(pre);
+        let n = if depth == 0 { 2 + self.rng.below(6) } else { self.rng.below(4) };
+        let mut lines: Vec<String> = Vec::new();
+        for _ in 0..n {
+            if self.budget <= 0 {
+                break;
+            }
+            self.budget -= 1;
+            let s = self.statement(depth, in_loop);
+            lines.push(s);
+        }
+        match self.rng.below(7) {
+            0 | 1 => lines.push(format!("return {}", self.exprs(0, 2, 1))),
+            2 if in_loop => lines.push("break".to_owned()),
+            3 if depth == 0 => {
+                // a global named like the first generated names, used at the very end of the file
+                let late = *self.rng.pick(&["a", "b", "c", "a, b", "print(a)", "self", "aa"]);
+                lines.push(format!("return {}", late));
+            }
+            _ => {}
+        }
+        let mut text = lines.join("\n");
+        if until {
+            text = format!("{}\nuntil {}", text, self.expr(1));
+        }
+        self.scopes.pop();
+        text
+    }
+
+    fn statement(&mut self, depth: usize, in_loop: bool) -> String {
+        let nest = depth + 1 < self.max_depth && self.budget > 0;
+        let roll = if nest { self.rng.below(100) } else { self.rng.below(38) };
+        match roll {
+            0..=11 => {
+                // local n [: T] = e   (the value is resolved before n comes into scope)
+                let name = self.decl_name();
+                let t = self.maybe_ty(&[]);
+                let value = if self.rng.chance(1, 5) { name.clone() } else { self.expr(0) };
+                let s = if self.rng.chance(1, 8) { format!("local {}{}", name, t) } else { format!("local {}{} = {}", name, t, value) };
+                self.declare(&name);
+                s
+            }
+            12..=16 => {
+                let n = 2 + self.rng.below(3);
+                let names: Vec<String> = (0..n).map(|_| self.decl_name()).collect();
+                let mut parts = Vec::new();
+                for name in &names {
+                    let t = self.maybe_ty(&[]);
+                    parts.push(format!("{}{}", name, t));
+                }
+                let values = self.exprs(0, 3, 0);
+                for name in &names {
+                    self.declare(name);
+                }
+                if values.is_empty() {
+                    format!("local {}", parts.join(", "))
+                } else {
+                    format!("local {} = {}", parts.join(", "), values)
+                }
+            }
+            17..=22 => {
+                let n = 1 + self.rng.below(2);
+                let targets: Vec<String> = (0..n).map(|_| self.prefix(0)).collect();
+                format!("{} = {}", targets.join(", "), self.exprs(1, 2, 0))
+            }
+            23..=24 => format!("{} += {}", self.prefix(0), self.expr(0)),
+            25..=31 => self.call(0),
+            32..=33 => {
+                if self.types {
+                    let t = self.ty(&[]);
+                    format!("type T{} = {}", self.rng.below(3), t)
+                } else {
+                    self.call(0)
+                }
+            }
+            34..=35 => {
+                // `local x = x`
+                let name = self.decl_name();
+                self.declare(&name);
+                format!("local {} = {}", name, name)
+            }
+            36..=37 => {
+                // a global named like the first generated names, used late
+                let g = *self.rng.pick(&["a", "b", "c", "d", "aa"]);
+                format!("{}({})", g, self.use_name())
+            }
+            38..=45 => {
+                let name = self.decl_name();
+                let (params, names, vararg, ret) = self.signature(Some(&name), true);
+                self.declare(&name);
+                let body = self.function_body(depth, names, vararg);
+                format!("local function {}({}){}\n{}\nend", name, params, ret, body)
+            }
+            46..=53 => {
+                let root = self.use_name();
+                let (params, mut names, vararg, ret) = self.signature(None, true);
+                let head = match self.rng.below(6) {
+                    0 | 1 => {
+                        names.insert(0, "self".to_owned());
+                        format!("{}:{}", root, self.field())
+                    }
+                    2 => {
+                        names.insert(0, "self".to_owned());
+                        format!("{}.{}:{}", root, self.field(), self.field())
+                    }
+                    3 => format!("{}.{}", root, self.field()),
+                    4 => format!("{}.{}.{}", root, self.field(), self.field()),
+                    _ => root,
+                };
+                let body = self.function_body(depth, names, vararg);
+                format!("function {}({}){}\n{}\nend", head, params, ret, body)
+            }
+            54..=58 => format!("do\n{}\nend", self.block(depth + 1, Vec::new(), in_loop, false)),
+            59..=62 => {
+                let cond = self.expr(1);
+                format!("while {} do\n{}\nend", cond, self.block(depth + 1, Vec::new(), true, false))
+            }
+            63..=67 => format!("repeat\n{}", self.block(depth + 1, Vec::new(), true, true)),
+            68..=72 => {
+                let var = self.decl_name();
+                let t = self.maybe_ty(&[]);
+                let from = self.expr(1);
+                let to = self.expr(1);
+                let step = if self.rng.chance(1, 3) { format!(", {}", self.expr(1)) } else { String::new() };
+                let body = self.block(depth + 1, vec![var.clone()], true, false);
+                format!("for {}{} = {}, {}{} do\n{}\nend", var, t, from, to, step, body)
+            }
+            73..=78 => {
+                let n = 1 + self.rng.below(3);
+                let vars: Vec<String> = (0..n).map(|_| self.decl_name()).collect();
+                let values = self.exprs(1, 2, 1);
+                let body = self.block(depth + 1, vars.clone(), true, false);
+                format!("for {} in {} do\n{}\nend", vars.join(", "), values, body)
+            }
+            79..=86 => {
+                let mut s = format!("if {} then\n{}", self.expr(1), self.block(depth + 1, Vec::new(), in_loop, false));
+                for _ in 0..self.rng.below(3) {
+                    s = format!("{}\nelseif {} then\n{}", s, self.expr(1), self.block(depth + 1, Vec::new(), in_loop, false));
+                }
+                if self.rng.chance(1, 2) {
+                    s = format!("{}\nelse\n{}", s, self.block(depth + 1, Vec::new(), in_loop, false));
+                }
+                format!("{}\nend", s)
+            }
+            87..=89 => {
+                // sibling scopes: several locals, scope closes, new locals (reuse pool)
+                let k = 2 + self.rng.below(4);
+                let first: Vec<String> = (0..k).map(|_| self.decl_name()).collect();
+                let second: Vec<String> = (0..k + 1).map(|_| self.decl_name()).collect();
+                let u1 = first[self.rng.below(first.len())].clone();
+                let u2 = second[self.rng.below(second.len())].clone();
+                format!(
+                    "do\nlocal {} = 1\n{}({})\nend\ndo\n{}\n{}({})\nend",
+                    first.join(", "),
+                    self.use_name(),
+                    u1,
+                    second.iter().map(|n| format!("local {} = {}", n, self.expr(2))).collect::<Vec<_>>().join("\n"),
+                    self.use_name(),
+                    u2
+                )
+            }
+            90..=92 => {
+                // forward declaration + mutual reference, local function self reference
+                let f = self.decl_name();
+                let mut g = self.decl_name();
+                if g == f {
+                    g = format!("{}{}", g, 1);
+                }
+                self.declare(&f);
+                self.declare(&g);
+                let h = self.decl_name();
+                self.declare(&h);
+                format!(
+                    "local {f}, {g}\nfunction {f}(...)\nreturn {g}(...)\nend\nfunction {g}({f})\nreturn {f}, {g}\nend\nlocal function {h}({g})\nreturn {h}({g}, {f})\nend",
+                    f = f,
+                    g = g,
+                    h = h
+                )
+            }
+            93..=95 => {
+                // a local named like a global that another function uses as a global
+                let g = *self.rng.pick(&["print", "a", "b", "game", "c"]);
+                let u = self.use_name();
+                format!(
+                    "local function u1()\nlocal {g} = {u}\nreturn {g}\nend\nlocal function u2()\nreturn {g}({u})\nend",
+                    g = g,
+                    u = u
+                )
+            }
+            _ => {
+                // methods: implicit self, a local / parameter named self, nested methods
+                let root = self.use_name();
+                match self.rng.below(4) {
+                    0 => format!("function {r}:m(self)\nreturn self, {r}\nend", r = root),
+                    1 => format!("function {r}:m()\nlocal self = self\nreturn self\nend", r = root),
+                    2 => format!(
+                        "function {r}:m(x)\nfunction self:n(y)\nlocal x = self\nreturn self, x, y\nend\nreturn function()\nreturn self, x\nend\nend",
+                        r = root
+                    ),
+                    _ => format!(
+                        "local self = {r}\nfunction self.{f}(x)\nreturn self\nend\nfunction self:{f}()\nreturn self\nend",
+                        r = root,
+                        f = self.field()
+                    ),
+                }
+            }
+        }
+    }
+}
+
+fn random_program(rng: &mut Rng, max_depth: usize, allow_types: bool) -> String {
+    let types = allow_types && rng.chance(2, 5);
+    let budget = 4 + rng.below(36) as i32;
+    let mut g = PGen { rng, scopes: Vec::new(), vararg: vec![true], budget, max_depth, types };
+    g.block(0, Vec::new(), false, false)
+}
+
+// ------------------------------------------------------------------------------------------
+// (iii) stress and edge programs
+// ------------------------------------------------------------------------------------------
+
+fn nth_name(prefix: &str, i: usize) -> String {
+    format!("{}{}", prefix, i)
+}
+
+/// n simultaneously live DISTINCT locals, some captured by a closure, then reuse after a scope exit
+fn many_locals_program(n: usize, rng: &mut Rng) -> String {
+    let mut lines: Vec<String> = Vec::with_capacity(n + 16);
+    lines.push("local function keep(...) return ... end".to_owned());
+    lines.push("do".to_owned());
+    for i in 0..n {
+        if i % 7 == 3 && i > 0 {
+            lines.push(format!("local {} = {}", nth_name("v", i), nth_name("v", rng.below(i))));
+        } else {
+            lines.push(format!("local {} = {}", nth_name("v", i), i));
+        }
+    }
+    lines.push("keep(function()".to_owned());
+    let picks: Vec<String> = (0..12).map(|_| nth_name("v", rng.below(n))).collect();
+    lines.push(format!("return {}, {}, a, b, c", picks.join(", "), nth_name("v", n - 1)));
+    lines.push("end)".to_owned());
+    lines.push("end".to_owned());
+    // after the scope closed every generated name is back in the pool
+    lines.push("do".to_owned());
+    for i in 0..40.min(n) {
+        lines.push(format!("local {} = keep", nth_name("w", i)));
+    }
+    lines.push(format!("keep({}, {})", nth_name("w", 0), nth_name("w", 39.min(n - 1))));
+    lines.push("end".to_owned());
+    lines.push("return keep".to_owned());
+    lines.join("\n")
+}
+
+/// valid Luau identifiers that look like keywords, the empty program, bare returns, comments
+fn edge_programs() -> Vec<String> {
+    let mut out: Vec<String> = vec![
+        "",
+        "return",
+        "return;",
+        "-- only a comment",
+        ";",
+        "do end",
+        "return nil",
+        "return ...",
+        "local goto = 1 return goto",
+        "local continue = 1 return continue",
+        "local type = 1 return type",
+        "local export = 1 return export",
+        "local typeof = 1 return typeof",
+        "local goto, continue, type, export, typeof = 1, 2, 3, 4, 5 return goto + continue + type + export + typeof",
+        "local function goto(continue) return continue end return goto(type)",
+        "local function type(export) return export, typeof end return type",
+        "for continue = 1, 2 do local type = continue end",
+        "for goto, export in pairs(typeof) do goto(export) end",
+        "function goto:export(type) return self, type, continue end",
+        "local t = {} function t.goto() return t end function t:continue() return self.goto end return t",
+        "local typeof = 1 local x: typeof(typeof) = typeof return x",
+        "local type = 1 type T = typeof(type) return type",
+        "while continue do local continue = goto if continue then break end end",
+        "repeat local export = type until export",
+        "local a = 1 local b = 2 local c = 3 return a, b, c, d, e",
+        "local self = 1 return self",
+        "local self function self:self(self) return self end return self",
+        "function self:m() return self end",
+        "local _ = 1 local _ = _ return _",
+        "local x <const> = 1 return x",
+        "local A, B, _0, _a = 1, 2, 3, 4 return A + B + _0 + _a",
+    ]
+    .into_iter()
+    .map(str::to_owned)
+    .collect();
+    let words = ["goto", "continue", "type", "export", "typeof", "self", "a"];
+    for w1 in words {
+        for w2 in words {
+            out.push(format!("local {} = {}\nlocal function f({})\nreturn {}, {}\nend\nreturn f({})", w1, w2, w2, w1, w2, w1));
+            out.push(format!("local {w1}\ndo\nlocal {w2} = {w1}\n{w1} = {w2}\nend\nreturn {w2}", w1 = w1, w2 = w2));
+        }
+    }
+    out
+}
+
+fn stress_programs(report: &Report, rng: &mut Rng) -> Vec<Item> {
+    let mut items: Vec<(Src, Vec<Cfg>)> = Vec::new();
+    let c_plain = Cfg::new(false, true, &[]);
+    let c_incl = Cfg::new(true, true, &["a", "b", "c", "print"]);
+    let c_off = Cfg::new(true, false, &["a", "b", "c", "keep"]);
+    // > 64 live locals: two-character generated names
+    for n in [60usize, 70, 130, 500] {
+        items.push((Src::Text(many_locals_program(n, rng)), vec![c_plain.clone(), c_incl.clone(), c_off.clone()]));
+    }
+    // > 4000 live distinct locals: three-character generated names (53 + 53*63 - keywords = 3388 shorter ones)
+    items.push((Src::Text(many_locals_program(4200, rng)), vec![c_plain.clone(), c_off.clone()]));
+    if report.is_thorough() {
+        items.push((Src::Text(many_locals_program(3400 + rng.below(1500), rng)), vec![c_incl.clone()]));
+        items.push((Src::Text(many_locals_program(9000, rng)), vec![c_plain.clone()]));
+    }
+    // the same name declared again and again in one scope: names are never given back, so the
+    // permutator runs to four-character names (53 + 3335 + 210352 names are shorter)
+    items.push((Src::SameName(262_000), vec![c_plain.clone()]));
+    if report.is_thorough() {
+        items.push((Src::SameName(215_000), vec![c_incl.clone()]));
+    }
+    items.into_iter().map(|(s, c)| (s, std::sync::Arc::new(c))).collect()
+}
+
+// ------------------------------------------------------------------------------------------
+// known findings, corpus, replay
+// ------------------------------------------------------------------------------------------
+
+fn corpus_dir() -> String {
+    concat!(env!("CARGO_MANIFEST_DIR"), "/../corpus/C09").to_owned()
+}
+
+/// a replay / corpus file is either a bare input or a violation record carrying `input`
+fn input_of(v: &Value) -> Option<(Src, Cfg)> {
+    let input = if v["input"].is_object() { &v["input"] } else { v };
+    let src = Src::from_json(input)?;
+    Some((src, Cfg::from_json(input)))
+}
+
+struct ProbeResult {
+    failure: Option<(String, String)>,
+    hannot: bool,
+    output: String,
+    seconds: f64,
+    note: String,
+}
+
+/// the property judged on one input with no gating (used for known findings and `--replay` notes)
+fn probe(src: &Src, cfg: &Cfg) -> Result<ProbeResult, String> {
+    let started = Instant::now();
+    let block_in = src.materialize()?;
+    let big = !src.is_small();
+    if big {
+        // one tree in memory: resolve in place, rename in place, resolve again; (c) and (e) skipped
+        let mut block = block_in;
+        let build_seconds = started.elapsed().as_secs_f64();
+        let rin = Resolver::run(Mode::Luau, false, &mut block);
+        let globals_used = rin.globals_used();
+        let rule_started = Instant::now();
+        apply_rule(&mut block, cfg)?;
+        let rule_seconds = rule_started.elapsed().as_secs_f64();
+        let rout = Resolver::run(Mode::Luau, false, &mut block);
+        let first_self = (0..rout.decls.len()).find(|i| rout.decls[*i].kind != DK::ImplicitSelf && rout.decl_name(*i) == "self");
+        let note = format!(
+            "declarations={} occurrences={} max_live={} build_time={:.2}s rule_time={:.2}s first declaration renamed to `self`={:?}",
+            rin.decls.len(),
+            rin.occs.len(),
+            rin.max_live,
+            build_seconds,
+            rule_seconds,
+            first_self
+        );
+        let outcome = oracle_core(&rin, rout, None, &globals_used, cfg, None);
+        drop(block);
+        return Ok(ProbeResult { failure: outcome.failure, hannot: true, output: String::new(), seconds: started.elapsed().as_secs_f64(), note });
+    }
+    let facts = input_facts(&block_in);
+    let mut block_out = block_in;
+    let rule_started = Instant::now();
+    apply_rule(&mut block_out, cfg)?;
+    let rule_seconds = rule_started.elapsed().as_secs_f64();
+    let output = if big { String::new() } else { generate_text(&block_out) };
+    let outcome = oracle(&facts, block_out, cfg, !big);
+    let note = format!(
+        "declarations={} occurrences={} max_live={} rule_time={:.2}s",
+        facts.luau.decls.len(),
+        facts.luau.occs.len(),
+        facts.luau.max_live,
+        rule_seconds
+    );
+    Ok(ProbeResult { failure: outcome.failure, hannot: facts.hannot, output, seconds: started.elapsed().as_secs_f64(), note })
+}
+
+fn replay_known_findings(report: &mut Report) {
+    for entry in report::known_findings("C09") {
+        let id = entry["id"].as_str().unwrap_or("F?").to_owned();
+        let witnesses: Vec<Value> = match &entry["witness"] {
+            Value::Array(a) => a.clone(),
+            Value::Null => Vec::new(),
+            w => vec![w.clone()],
+        };
+        for witness in witnesses {
+            let Some((src, cfg)) = input_of(&witness) else {
+                report.notes.push(format!("known finding {}: witness not replayable by this harness", id));
+                continue;
+            };
+            // the multi-million-statement witness is replayed in the thorough tier only
+            if let Src::SelfCapture(n) = &src {
+                if *n > 100_000 && !report.is_thorough() {
+                    report.notes.push(format!("known finding {}: self_capture witness ({} locals) is replayed in the thorough tier", id, n));
+                    continue;
+                }
+            }
+            report.hist("known_finding_replays", &id);
+            match probe(&src, &cfg) {
+                Ok(ProbeResult { failure: Some((check, what)), seconds, note, .. }) => {
+                    report.known_finding(&id, &format!("still fails [{}]: {} ({}; {:.1}s)", check, clip(&what, 400), note, seconds));
+                }
+                Ok(_) => {}
+                Err(e) => report.notes.push(format!("known finding {}: witness could not run: {}", id, clip(&e, 200))),
+            }
+        }
+    }
+}
+
+/// replay one stored input through every check (model included); also leaves a note with the
+/// ungated oracle verdict so that probes of known-defect regions are visible
+fn replay_input(report: &mut Report, label: &str, src: Src, cfg: Cfg, verbose: bool) {
+    if verbose {
+        match probe(&src, &cfg) {
+            Ok(p) => report.notes.push(format!(
+                "{}: ungated oracle = {} ; Hannot={} ; {} ; total {:.2}s ; output = {}",
+                label,
+                match &p.failure {
+                    Some((c, w)) => format!("FAIL [{}] {}", c, clip(w, 400)),
+                    None => "pass".to_owned(),
+                },
+                p.hannot,
+                p.note,
+                p.seconds,
+                clip(&p.output, 600)
+            )),
+            Err(e) => report.notes.push(format!("{}: could not run: {}", label, clip(&e, 300))),
+        }
+    }
+    if let Src::SelfCapture(n) = &src {
+        if *n > 300_000 {
+            return; // far outside Hself and too large for the model line protocol
+        }
+    }
+    run_parallel(report, label, vec![(src, std::sync::Arc::new(vec![cfg]))], true);
+    report.notes.retain(|n| !n.starts_with("corpus: 1 programs"));
+}
+
+fn replay_corpus(report: &mut Report) {
+    let mut paths: Vec<std::path::PathBuf> = match std::fs::read_dir(corpus_dir()) {
+        Ok(rd) => rd.filter_map(|e| e.ok().map(|e| e.path())).filter(|p| p.extension().map(|e| e == "json").unwrap_or(false)).collect(),
+        Err(_) => Vec::new(),
+    };
+    paths.sort();
+    for path in paths {
+        let Ok(text) = std::fs::read_to_string(&path) else { continue };
+        let Ok(value) = serde_json::from_str::<Value>(&text) else {
+            report.notes.push(format!("corpus file {} is not JSON", path.display()));
+            continue;
+        };
+        let entries: Vec<Value> = match value {
+            Value::Array(a) => a,
+            v => vec![v],
+        };
+        for entry in entries {
+            if let Some((src, cfg)) = input_of(&entry) {
+                report.count("corpus_inputs_replayed", 1);
+                replay_input(report, "corpus", src, cfg, false);
+            }
+        }
+    }
+}
+
+// ------------------------------------------------------------------------------------------
+// entry point
+// ------------------------------------------------------------------------------------------
+
+pub fn run(report: &mut Report, replay: Option<&str>) {
+    report.rule = "programs: (i) exhaustive enumerations E1..E6 of small programs over the names x, a, self (a collides with the first generated name) crossed with include_functions × detect_globals × 3 globals lists, (ii) seeded random structured programs to nesting depth 6 with shadowing/capture/reuse patterns and Luau annotations in safe positions, (iii) stress (>64, >4000 live locals, one name declared 262k times in one scope) and keyword-like identifiers. One evaluation = one (program, configuration) through: real rule, event-stream correspondence with the Lean model, CollectGlobals and resolver correspondence, independent binding-graph oracle. Non-trivial = at least one declaration renamed AND at least one shadowing, upvalue capture or reuse of a generated name after scope exit; keyed by (input event stream, configuration).".to_owned();
+
+    if let Some(path) = replay {
+        let text = std::fs::read_to_string(path).unwrap_or_default();
+        match serde_json::from_str::<Value>(&text).ok().and_then(|v| input_of(&v)) {
+            Some((src, cfg)) => replay_input(report, "replay", src, cfg, true),
+            None => report.notes.push(format!("replay file {} has no replayable input", path)),
+        }
+        return;
+    }
+
+    let thorough = report.is_thorough();
+    let started = Instant::now();
+    if !*TEXT_PATH_OK.get_or_init(default_globals_copy_is_current) {
+        report.notes.push("the harness copy of rename_variables::globals::DEFAULT is stale: the json5 configuration path is not exercised".to_owned());
+    }
+    replay_corpus(report);
+    replay_known_findings(report);
+
+    let configs = all_configs();
+    let slices: Vec<std::sync::Arc<Vec<Cfg>>> = (0..3).map(|r| std::sync::Arc::new(config_slice(&configs, r, thorough))).collect();
+    let with_configs = |programs: Vec<String>| -> Vec<Item> {
+        programs.into_iter().enumerate().map(|(i, p)| (Src::Text(p), slices[i % 3].clone())).collect()
+    };
+
+    // (i) exhaustive enumerations
+    let families: Vec<(&str, Vec<String>)> = vec![
+        ("E1 [leaf] template(body) [leaf] [return]", enum_e1(thorough)),
+        ("E2 template(template(body))", enum_e2(thorough)),
+        ("E3 sibling scopes", enum_e3()),
+        ("E4 if/elseif/else bodies", enum_e4()),
+        ("E5 expression forms depth<=2", enum_e5()),
+        ("E6 multiple local assignment", enum_e6()),
+    ];
+    let rotating: Vec<std::sync::Arc<Vec<Cfg>>> = (0..3).map(|r| std::sync::Arc::new(config_slice(&configs, r, false))).collect();
+    for (name, programs) in families {
+        let n = programs.len();
+        report.count(&format!("enumerated:{}", name), n as u64);
+        // E1's thorough domain is 5x larger: it keeps the rotating 4-of-12 configurations
+        let e1 = name.starts_with("E1");
+        let items: Vec<Item> = if e1 {
+            programs.into_iter().enumerate().map(|(i, p)| (Src::Text(p), rotating[i % 3].clone())).collect()
+        } else {
+            with_configs(programs)
+        };
+        run_parallel(report, name, items, true);
+        let what = if thorough && !e1 {
+            format!("{}: all {} programs x all 12 configurations", name, n)
+        } else {
+            format!("{}: all {} programs ({}-tier domain) x 4 of 12 configurations rotating", name, n, report.tier)
+        };
+        report.exhaustive.insert(what, true);
+    }
+
+    // edge programs × all configurations
+    let every = std::sync::Arc::new(configs.clone());
+    let edge: Vec<Item> = edge_programs().into_iter().map(|p| (Src::Text(p), every.clone())).collect();
+    run_parallel(report, "edge (keyword-like names, empty, bare return)", edge, true);
+
+    // (ii) random structured programs
+    let mut rng = Rng::new(report.seed);
+    let n_random = if thorough { 250_000 } else { 40_000 };
+    let mut random_items: Vec<Item> = Vec::with_capacity(n_random);
+    for i in 0..n_random {
+        let mut r = rng.fork();
+        let depth = 2 + (i % 5);
+        let program = random_program(&mut r, depth, true);
+        let mut cfgs = vec![random_config(&mut r, &program), random_config(&mut r, &program)];
+        if cfgs[0] == cfgs[1] {
+            cfgs.pop();
+        }
+        random_items.push((Src::Text(program), std::sync::Arc::new(cfgs)));
+    }
+    run_parallel(report, "random structured", random_items, true);
+
+    // (iii) stress
+    let stress = stress_programs(report, &mut rng);
+    run_parallel(report, "stress", stress, thorough);
+
+    report.exhaustive.insert("random structured programs (sampled, not exhaustive)".to_owned(), false);
+    report.notes.push(format!("C09 harness total {:.1}s", started.elapsed().as_secs_f64()));
 }
